@@ -1,9 +1,17 @@
 (* The hand model Model/Oscar.v equals what tools/py2coq/gen_oscarloader.py regenerates from the source of
    sparkx/loader/OscarLoader.py and BaseLoader.py on every run (Gen/GenOscarLoader.v, Gallina over the Python/numpy
    fragment Model/OscarLoaderRt.v).  A file is given by its text; the theorems are about texts that are rendered
-   lines: every line the join by single blanks of blank-free, newline-free tokens, followed by a newline.
+   lines: every line the join by single blanks of blank-free, newline-free tokens, followed by a newline
+   (render_lines / line_ok of Model/OscarLoaderRt.v, where the vocabulary of the statements lives).
    Loops are handled through the behaviour of their bodies on one line / index (proved by computation from the
-   generated text), so the proofs do not depend on how the translator names or nests its intermediate bindings. *)
+   generated text), so the proofs do not depend on how the translator names or nests its intermediate bindings.
+
+   source_set_oscar_format / _set_custom_attr_list, source_set_num_events (byte-level backward search; _one_line),
+   source_scan (header scan of the standard formats; scan_loop, source_scan_err), source_get_num_skip_lines /
+   _get_num_read_lines / _skip_lines, source_set_particle_list (the read loop against read_loop / close_event),
+   source_load / _ok / _err / _rejects, source_impact_parameter, source_check_tuple, source_accessors, source_init,
+   source_example.  The header scans of the Oscar2013Extended_IC / _Photons formats are translated but have no
+   counterpart in Model/Oscar.v and no theorem here. *)
 From Coq Require Import List String Ascii ZArith QArith Bool Arith Lia.
 From SX Require Import Lib.Strs Lib.StrLemmas Lib.Split Lib.DecStr Lib.CutSplit Gen.GenParticleMap Model.Oscar Model.OscarLoaderRt
   Gen.GenOscarLoader Proofs.OscarLoader_Lemmas.
@@ -71,10 +79,6 @@ Proof.
     destruct (py_append v (OStr a)); reflexivity.
 Qed.
 
-Definition fmt_state (self : oself) (fa : string * list string) : oself :=
-  let s := py_setattr self A_fmt (OStr (fst fa)) in
-  if (fst fa =? "ASCII")%string then py_setattr s A_attrs (enc_strs (snd fa)) else s.
-
 Lemma zlen_map {A B} (f : A -> B) l : zlen (map f l) = zlen l.
 Proof. unfold zlen. rewrite map_length. reflexivity. Qed.
 Lemma zlen_eqb_nat {A} (l : list A) n : (zlen l =? Z.of_nat n)%Z = (List.length l =? n)%nat.
@@ -118,10 +122,6 @@ Qed.
 Lemma source_set_oscar_format_empty self : o_text self = "" -> gen_set_oscar_format self = Err TypeError.
 Proof. intros Ht. unfold gen_set_oscar_format. cbv zeta. unfold py_open. rewrite Ht. reflexivity. Qed.
 
-Definition sel_val (sel : selector) : option ov :=
-  match sel with SelAll => None | SelOne k => Some (OInt k) | SelRange a b => Some (OTuple [OInt a; OInt b]) end.
-Definition cnt_of (rows : list (Z * Z)) : arr := match rows with [] => A10 | _ => A2 rows end.
-
 Lemma in_keys k d :
   py_in (OStr k) (OList (map (fun kv : string * ov => OStr (fst kv)) d))
   = Ok (match assoc k d with Some _ => true | None => false end).
@@ -139,9 +139,6 @@ Proof.
   destruct d as [|kv d]; [reflexivity|]. cbn [is_nil negb]. destruct (assoc "events" (kv :: d)); reflexivity.
 Qed.
 
-
-Definition int_of {A} (wrap : ov -> A) (r : result A) (h : result Z) : Prop :=
-  match h with Ok z => exists v, r = Ok (wrap v) /\ as_int v = Some z | Err e => r = Err e end.
 
 Lemma getitem_dict d k : py_getitem (ODict d) (OStr k) = match assoc k d with Some v => Ok v | None => Err KeyError end.
 Proof. reflexivity. Qed.
@@ -185,6 +182,28 @@ Ltac with_loop L G :=
   match goal with |- context [fold_leftM ?b _ _] => pose proof (L b) as G; cbv beta in G end;
   match type of G with (?P -> _) => let Hb := fresh "Hb" in assert (Hb : P); [clear G|specialize (G Hb); clear Hb] end.
 
+(* the loop `for i in range(0, n): cumulate_lines += counts[i, 1] + 2` followed by `skip_lines = 3 + cumulate_lines` *)
+Ltac skip_loop rows n :=
+  let G := fresh "G" in
+  with_loop (fun b => fold_sum_counts b rows) G;
+  [ let acc := fresh "acc" in let a := fresh "a" in let i := fresh "i" in let Ha := fresh "Ha" in
+    intros acc a i Ha; cbn [bind]; rewrite cnt_get;
+    let c := fresh "c" in
+    destruct (zcount rows i) as [c|?]; cbn [bind int_of]; [|reflexivity];
+    change (py_add (ONpInt c) (OInt 2)) with (Ok (ONpInt (c + 2))); cbn [bind];
+    let w := fresh "w" in let Hw := fresh "Hw" in let Haw := fresh "Haw" in
+    destruct (py_add_int acc (ONpInt (c + 2)) a (c + 2) Ha eq_refl) as (w & Hw & Haw);
+    rewrite Hw; exists w; split; [reflexivity|exact Haw]
+  | specialize (G n 0%nat (OInt 0) 0%Z eq_refl); cbn [Z.of_nat] in G;
+    let r := fresh "r" in
+    destruct (sum_counts rows 0 n) as [r|?]; cbn [bind int_of] in *;
+    [ let v := fresh "v" in let Hv := fresh "Hv" in let Hav := fresh "Hav" in
+      destruct G as (v & Hv & Hav); unfold id in Hv; rewrite Hv; cbn [bind];
+      let w := fresh "w" in let Hw := fresh "Hw" in let Haw := fresh "Haw" in
+      destruct (py_add_int (OInt 3) v 3 _ eq_refl Hav) as (w & Hw & Haw); rewrite Hw; cbn [bind];
+      exists w; split; [reflexivity|exact Haw]
+    | rewrite G; reflexivity ] ].
+
 Lemma source_get_num_skip_lines self d sel rows :
   o_opts self = ODict d -> assoc "events" d = sel_val sel -> o_cnt self = OArr (cnt_of rows) ->
   int_of (pair self) (gen_get_num_skip_lines self) (num_skip sel rows).
@@ -192,38 +211,16 @@ Proof.
   intros Ho Hs Hc. destruct self as [text path fmt opts ends nev cnt attrs]. cbn in Ho, Hc. subst opts cnt.
   unfold gen_get_num_skip_lines. cbn [py_getattr attr_get o_opts o_cnt bind].
   rewrite no_events_cond, !getitem_dict, Hs.
-  assert (Hbody : forall acc a i, as_int acc = Some a ->
-     int_of id (cumulate_lines0 <- (v63_ <- (v62_ <- py_getitem (OArr (cnt_of rows)) (OTuple [OInt (Z.of_nat i); OInt 1]) ;; py_add v62_ (OInt 2)) ;; py_add acc v63_) ;; Ok cumulate_lines0)
-                (c <- zcount rows i ;; Ok (a + (c + 2))%Z)).
-  { intros acc a i Ha. rewrite cnt_get. destruct (zcount rows i) as [c|e]; cbn [bind int_of]; [|reflexivity].
-    change (py_add (ONpInt c) (OInt 2)) with (Ok (ONpInt (c + 2))). cbn [bind].
-    destruct (py_add_int acc (ONpInt (c + 2)) a (c + 2) Ha eq_refl) as (w & Hw & Haw).
-    rewrite Hw. exists w. split; [reflexivity|exact Haw]. }
-  assert (Hloop : forall n, int_of (pair (mkO text path fmt (ODict d) ends nev (OArr (cnt_of rows)) attrs))
-     (x <- (c <- fold_leftM (fun cumulate_lines i : ov => cumulate_lines0 <- (v63_ <- (v62_ <- (v61_ <- Ok (OArr (cnt_of rows)) ;; py_getitem v61_ (OTuple [i; OInt 1])) ;; py_add v62_ (OInt 2)) ;; py_add cumulate_lines v63_) ;; Ok cumulate_lines0)
-                   (map OInt (zrange_n 0 n)) (OInt 0) ;; skip_lines <- py_add (OInt 3) c ;; Ok skip_lines) ;;
-      Ok (mkO text path fmt (ODict d) ends nev (OArr (cnt_of rows)) attrs, x))
-     (r <- sum_counts rows 0 n ;; Ok (3 + r)%Z)).
-  { intros n. with_loop (fun b => fold_sum_counts b rows) G; [exact Hbody|].
-    specialize (G n 0%nat (OInt 0) 0%Z eq_refl). cbn [Z.of_nat] in G.
-    destruct (sum_counts rows 0 n) as [r|e]; cbn [bind int_of] in *.
-    - destruct G as (v & Hv & Hav). unfold id in Hv. rewrite Hv. cbn [bind].
-      destruct (py_add_int (OInt 3) v 3 _ eq_refl Hav) as (w & Hw & Haw). rewrite Hw. cbn [bind].
-      exists w. split; [reflexivity|exact Haw].
-    - rewrite G. reflexivity. }
   destruct sel as [|k|a b]; cbn [sel_val bind py_isinstance py_eq as_int num_skip int_of].
   - eexists. split; reflexivity.
   - destruct (k =? 0)%Z eqn:Ek; cbn [bind].
     + apply Z.eqb_eq in Ek. subst k. cbn. eexists. split; reflexivity.
-    + cbn [py_range as_int bind]. unfold zrange. rewrite Z.sub_0_r. apply Hloop.
+    + cbn [py_range as_int bind]. unfold zrange. rewrite Z.sub_0_r. skip_loop rows (Z.to_nat k).
   - change (py_getitem (OTuple [OInt a; OInt b]) (OInt 0)) with (Ok (OInt a)). cbn [bind py_eq as_int].
     destruct (a =? 0)%Z eqn:Ea; cbn [bind].
     + apply Z.eqb_eq in Ea. subst a. cbn. eexists. split; reflexivity.
-    + cbn [py_range as_int bind]. unfold zrange. rewrite Z.sub_0_r. apply Hloop.
+    + cbn [py_range as_int bind]. unfold zrange. rewrite Z.sub_0_r. skip_loop rows (Z.to_nat a).
 Qed.
-
-Definition sel_nonneg (sel : selector) : Prop :=
-  match sel with SelAll => True | SelOne k => (0 <= k)%Z | SelRange a b => (0 <= a)%Z end.
 
 Lemma zsum_snd (rows : list (Z * Z)) : zsum (map snd rows) = fold_right (fun c acc => (snd c + acc)%Z) 0%Z rows.
 Proof. induction rows as [|r rows IH]; [reflexivity|]. cbn. unfold zsum in IH. rewrite IH. reflexivity. Qed.
@@ -294,24 +291,6 @@ Proof. unfold render_line. destruct (join sp l); reflexivity. Qed.
 Section Scan.
   Variable ti : string -> option Q.
 
-  Definition set_ends (s : oself) (E : list ov) : oself := py_setattr s A_ends (OList E).
-  Definition scan_step (x : list ov * (oself * list ov)) (l : line) : result (list ov * (oself * list ov)) :=
-    let '(evo, (s, E)) := x in
-    match kind_scan l with
-    | SEnd => Ok (evo, (s, E ++ [OStr (render_line l)]))%list
-    | SOut => match nth_error l 2 with
-              | None => Err IndexError
-              | Some e => match nth_error l 4 with
-                          | None => Err IndexError
-                          | Some c => match ti c with
-                                      | None => Err ValueError
-                                      | Some q => Ok (evo ++ [OList [OStr e; OInt (to_Z q)]], (s, E))%list
-                                      end
-                          end
-              end
-    | SOther => Ok x
-    end.
-
   Lemma kind_scan_raw l : line_ok l ->
     kind_scan l = if contains "#" (render_line l) && contains " end " (render_line l) then SEnd
                   else if contains "#" (render_line l) && contains " out " (render_line l) then SOut else SOther.
@@ -319,9 +298,9 @@ Section Scan.
     intros H. pose proof (raw_kind_scan l H) as E. injection E as -> -> ->. reflexivity.
   Qed.
 
-  Definition scan_mk text path fmt opts nev cnt attrs (x : list ov * list ov) (txt : string) : ov * ov * oself :=
-    (OList (fst x), OFile txt, mkO text path fmt opts (OList (snd x)) nev cnt attrs).
-  Definition scan_step' (x : list ov * list ov) (l : line) : result (list ov * list ov) :=
+  Definition scan_mk text path fmt opts nev cnt attrs (x : list ov * list ov) (txt : string) : ov * oself * ov :=
+    (OFile txt, mkO text path fmt opts (OList (snd x)) nev cnt attrs, OList (fst x)).
+  Definition scan_step (x : list ov * list ov) (l : line) : result (list ov * list ov) :=
     let '(evo, E) := x in
     match kind_scan l with
     | SEnd => Ok (evo, E ++ [OStr (render_line l)])%list
@@ -338,20 +317,16 @@ Section Scan.
     | SOther => Ok x
     end.
 
-  (* every event label of an "out" line is a numeral *)
-  Definition labels_ok (ls : list line) : Prop :=
-    Forall (fun l => kind_scan l = SOut -> forall e, nth_error l 2 = Some e -> ti e <> None) ls.
-
-  Lemma scan_fold ls : labels_ok ls -> forall evo E,
+  Lemma scan_fold ls : labels_ok ti ls -> forall evo E,
     match scan ti ls with
-    | Ok (cs, fs) => exists ent, fold_leftM scan_step' ls (evo, E) = Ok (evo ++ ent, E ++ map (fun l => OStr (render_line l)) fs)%list
+    | Ok (cs, fs) => exists ent, fold_leftM scan_step ls (evo, E) = Ok (evo ++ ent, E ++ map (fun l => OStr (render_line l)) fs)%list
                                  /\ mapM (row_int ti) ent = Ok cs
-    | Err e => fold_leftM scan_step' ls (evo, E) = Err e
+    | Err e => fold_leftM scan_step ls (evo, E) = Err e
     end.
   Proof.
     induction 1 as [|l ls Hl _ IH]; intros evo E.
     - cbn. exists []. rewrite !app_nil_r. split; reflexivity.
-    - cbn [scan fold_leftM scan_step']. destruct (kind_scan l) eqn:K.
+    - cbn [scan fold_leftM scan_step]. destruct (kind_scan l) eqn:K.
       + specialize (IH evo (E ++ [OStr (render_line l)])%list). cbn [bind].
         destruct (scan ti ls) as [[cs fs]|e]; cbn [bind fst snd].
         * destruct IH as (ent & Hf & Hm). exists ent. rewrite Hf. cbn [map]. rewrite <- app_assoc. split; [reflexivity|exact Hm].
@@ -376,26 +351,27 @@ Section Scan.
     injection H as <-. cbn. rewrite (IH r' eq_refl). reflexivity.
   Qed.
 
-  Theorem source_scan path fmt opts E nev cnt attrs ls :
-    Forall line_ok ls -> fmt <> "Oscar2013Extended_IC" -> fmt <> "Oscar2013Extended_Photons" -> labels_ok ls ->
+  (* the scan loop of the source, as a fold of scan_step over the lines; then the conversion of the table *)
+  Lemma scan_loop path fmt opts E nev cnt attrs ls :
+    Forall line_ok ls -> fmt <> "Oscar2013Extended_IC" -> fmt <> "Oscar2013Extended_Photons" ->
     gen_set_num_output_per_event_and_event_footers ti (mkO (render_lines ls) path (OStr fmt) opts (OList E) nev cnt attrs)
-    = match scan ti ls with
-      | Ok (cs, fs) => Ok (mkO (render_lines ls) path (OStr fmt) opts (OList (E ++ map (fun l => OStr (render_line l)) fs)) nev
-                               (OArr (cnt_of cs)) attrs, ONone)
+    = match fold_leftM scan_step ls ([], E) with
+      | Ok (ent, E') => c <- py_np_array_int32_2d ti (OList ent) ;;
+                        Ok (mkO (render_lines ls) path (OStr fmt) opts (OList E') nev c attrs, ONone)
       | Err e => Err e
       end.
   Proof.
-    intros Hok H1 H2 Hlab. unfold gen_set_num_output_per_event_and_event_footers. cbv zeta.
+    intros Hok H1 H2. unfold gen_set_num_output_per_event_and_event_footers. cbv zeta.
     cbn [py_getattr attr_get o_fmt bind py_ne py_eq notM andM py_open o_text].
     apply String.eqb_neq in H1, H2. rewrite H1, H2. cbn [negb bind].
     match goal with |- context [py_while ?f ?b ?s] =>
-      pose proof (while_lines b (scan_mk (render_lines ls) path (OStr fmt) opts nev cnt attrs) scan_step') as W end.
+      pose proof (while_lines b (scan_mk (render_lines ls) path (OStr fmt) opts nev cnt attrs) scan_step) as W end.
     cbv beta in W.
     match type of W with (?P -> ?Q -> _) => assert (W1 : P); [|assert (W2 : Q); [|specialize (W W1 W2); clear W1 W2]] end.
     - intros [evo E'] l rest Hl. unfold scan_mk. cbn [fst snd]. cbv iota beta.
       rewrite (readline_lines l rest Hl). cbv iota beta. cbn [py_truthy notM bind negb].
       rewrite render_line_nonempty. cbn [negb py_in andM bind].
-      unfold scan_step'. rewrite (kind_scan_raw l Hl).
+      unfold scan_step. rewrite (kind_scan_raw l Hl).
       destruct (contains "#" (render_line l)); cbn [andb bind]; [|reflexivity].
       destruct (contains " end " (render_line l)); cbn [bind].
       { cbn [py_getattr attr_get o_ends py_append bind py_setattr]. reflexivity. }
@@ -408,24 +384,37 @@ Section Scan.
       destruct (nth_error l 4) as [c|]; cbn [option_map bind py_int]; [|reflexivity].
       destruct (ti c) as [q|]; cbn [bind py_append]; reflexivity.
     - intros [evo E']. reflexivity.
-    - specialize (W ls ([], E) (py_fuel [OList []; OFile (render_lines ls)]) Hok).
+    - specialize (W ls ([], E) (py_fuel [OFile (render_lines ls); OList []]) Hok).
       unfold scan_mk at 1 in W. cbn [fst snd] in W. rewrite W.
       2:{ unfold py_fuel. cbn [fold_right fuel_of]. pose proof (lines_le_length ls). lia. }
-      pose proof (scan_fold ls Hlab [] E) as G.
-      destruct (scan ti ls) as [[cs fs]|e].
-      + destruct G as (ent & Hf & Hm). rewrite Hf. cbn [app bind scan_mk fst snd]. cbv iota beta. cbn [bind].
-        assert (Hc : py_np_array_int32_2d ti (OList ent) = Ok (OArr (cnt_of cs))).
-        { destruct ent as [|x ent].
-          - cbn in Hm. injection Hm as <-. reflexivity.
-          - cbn [py_np_array_int32_2d]. rewrite Hm. cbn [bind].
-            pose proof (mapM_length _ _ _ Hm) as Hlen. destruct cs; [discriminate|reflexivity]. }
-        rewrite Hc. reflexivity.
-      + rewrite G. reflexivity.
+      destruct (fold_leftM scan_step ls ([], E)) as [[ent E']|e]; [|reflexivity].
+      cbn [bind scan_mk fst snd]. cbv iota beta.
+      destruct (py_np_array_int32_2d ti (OList ent)); reflexivity.
+  Qed.
+
+  Theorem source_scan path fmt opts E nev cnt attrs ls :
+    Forall line_ok ls -> fmt <> "Oscar2013Extended_IC" -> fmt <> "Oscar2013Extended_Photons" -> labels_ok ti ls ->
+    gen_set_num_output_per_event_and_event_footers ti (mkO (render_lines ls) path (OStr fmt) opts (OList E) nev cnt attrs)
+    = match scan ti ls with
+      | Ok (cs, fs) => Ok (mkO (render_lines ls) path (OStr fmt) opts (OList (E ++ map (fun l => OStr (render_line l)) fs)) nev
+                               (OArr (cnt_of cs)) attrs, ONone)
+      | Err e => Err e
+      end.
+  Proof.
+    intros Hok H1 H2 Hlab. rewrite (scan_loop path fmt opts E nev cnt attrs ls Hok H1 H2).
+    pose proof (scan_fold ls Hlab [] E) as G.
+    destruct (scan ti ls) as [[cs fs]|e].
+    - destruct G as (ent & Hf & Hm). rewrite Hf. cbn [app].
+      assert (Hc : py_np_array_int32_2d ti (OList ent) = Ok (OArr (cnt_of cs))).
+      { destruct ent as [|x ent].
+        - cbn in Hm. injection Hm as <-. reflexivity.
+        - cbn [py_np_array_int32_2d]. rewrite Hm. cbn [bind].
+          pose proof (mapM_length _ _ _ Hm) as Hlen. destruct cs; [discriminate|reflexivity]. }
+      rewrite Hc. reflexivity.
+    - rewrite G. reflexivity.
   Qed.
 End Scan.
 
-
-Definition inj_cnt (c : list (Z * Z)) : arr := match c with [] => A1 [] | _ => A2 c end.
 
 Lemma set_row_spec {A} k (v : A) l :
   set_row k v l = if (k <? List.length l)%nat then Ok (firstn k l ++ v :: skipn (S k) l)%list else Err IndexError.
@@ -483,28 +472,6 @@ Qed.
 Lemma clamp_nat k n : (k <= n)%nat -> clamp (Z.of_nat k) (Z.of_nat n) = k.
 Proof. intros H. unfold clamp. replace (Z.of_nat k <? 0)%Z with false by (symmetry; apply Z.ltb_ge; lia). rewrite Z.min_l by lia. apply Nat2Z.id. Qed.
 
-(* what is done with the count rows once row k has been removed *)
-Lemma after_delete r k :
-  (c <- (v <- (s <- py_shape (OArr (A2 r)) ;; py_getitem s (OInt 0)) ;; py_eq v (OInt 0)) ;;
-   if c then Ok (OArr (A1 []))
-   else c2 <- (v <- (s <- py_shape (OArr (A2 r)) ;; py_getitem s (OInt 0)) ;; py_lt (OInt (Z.of_nat k)) v) ;;
-        if c2 then py_isub_colslice (OArr (A2 r)) (OInt (Z.of_nat k)) (OInt 0) (OInt 1) else Ok (OArr (A2 r)))
-  = Ok (OArr (inj_cnt (dec_labels_from k r))).
-Proof.
-  cbn [py_shape bind]. change (py_getitem (OTuple [OInt (zlen r); OInt 2]) (OInt 0)) with (Ok (OInt (zlen r))).
-  cbn [bind py_eq as_int py_lt py_cmp].
-  destruct r as [|r0 r]; [destruct k; reflexivity|].
-  replace (zlen (r0 :: r) =? 0)%Z with false by (symmetry; apply Z.eqb_neq; unfold zlen; cbn [List.length]; lia).
-  cbn [bind]. unfold zlen. destruct (Z.ltb_spec (Z.of_nat k) (Z.of_nat (List.length (r0 :: r)))); cbn [bind].
-  - cbn [py_isub_colslice as_int col_of Z.eqb orb]. unfold zlen. rewrite clamp_nat by lia.
-    unfold dec_labels_from.
-    assert (Hm : map (fun r1 : Z * Z => rset r1 false (rget r1 false - 1)%Z) (skipn k (r0 :: r))
-                 = map (fun c : Z * Z => ((fst c - 1)%Z, snd c)) (skipn k (r0 :: r))) by reflexivity.
-    rewrite Hm. destruct (firstn k (r0 :: r) ++ _)%list eqn:E; [|reflexivity].
-    apply (f_equal (@List.length _)) in E. rewrite app_length, map_length, firstn_length, skipn_length in E. cbn [List.length] in *. lia.
-  - unfold dec_labels_from. rewrite firstn_all2, skipn_all2 by lia. cbn [map]. rewrite app_nil_r. reflexivity.
-Qed.
-
 Lemma isub_dec r k : (k < List.length r)%nat ->
   py_isub_colslice (OArr (A2 r)) (OInt (Z.of_nat k)) (OInt 0) (OInt 1) = Ok (OArr (A2 (dec_labels_from k r))).
 Proof.
@@ -515,4 +482,1022 @@ Proof. intros H. unfold dec_labels_from. rewrite firstn_all2, skipn_all2 by lia.
 Lemma dec_labels_length r k : List.length (dec_labels_from k r) = List.length r.
 Proof.
   unfold dec_labels_from. rewrite app_length, map_length, firstn_length, skipn_length. lia.
+Qed.
+
+
+Lemma fold_readlines (body : ov -> ov -> result ov) :
+  (forall f i, body f i = (r <- py_readline f ;; Ok (fst r))) ->
+  forall n a ls, Forall line_ok ls ->
+  fold_leftM body (map OInt (zrange_n a n)) (OFile (render_lines ls)) = Ok (OFile (render_lines (skipn n ls))).
+Proof.
+  intros Hb. induction n as [|n IH]; intros a ls Hok; [reflexivity|].
+  cbn [zrange_n map fold_leftM]. rewrite Hb. destruct ls as [|l ls].
+  - change (render_lines []) with "". rewrite readline_eof. cbn [bind fst]. change "" with (render_lines []).
+    rewrite (IH _ [] Hok). destruct n; reflexivity.
+  - inversion Hok as [|? ? Hl Hls]; subst. rewrite (readline_lines l ls Hl). cbn [bind fst skipn]. apply IH, Hls.
+Qed.
+
+Lemma range_int v z : as_int v = Some z -> py_range (OInt 0) v = Ok (map OInt (zrange_n 0 (Z.to_nat z))).
+Proof. intros H. unfold py_range. cbn [as_int]. rewrite H. unfold zrange. rewrite Z.sub_0_r. reflexivity. Qed.
+
+Lemma source_skip_lines self d sel rows ls :
+  o_opts self = ODict d -> assoc "events" d = sel_val sel -> o_cnt self = OArr (cnt_of rows) -> Forall line_ok ls ->
+  gen_skip_lines self (OFile (render_lines ls))
+  = match num_skip sel rows with
+    | Ok z => Ok (self, OFile (render_lines (skipn (Z.to_nat z) ls)), ONone)
+    | Err e => Err e
+    end.
+Proof.
+  intros Ho Hs Hc Hok. unfold gen_skip_lines.
+  pose proof (source_get_num_skip_lines self d sel rows Ho Hs Hc) as G.
+  destruct (num_skip sel rows) as [z|e]; cbn [int_of] in G.
+  - destruct G as (v & Hv & Hav). rewrite Hv. cbn [bind]. cbv zeta. rewrite (range_int v z Hav). cbn [bind].
+    rewrite fold_readlines; [reflexivity| |exact Hok].
+    intros f i. destruct (py_readline f) as [[f' x]|e]; reflexivity.
+  - rewrite G. reflexivity.
+Qed.
+
+Lemma sel_ok_nonneg sel : sel_ok sel -> sel_nonneg sel.
+Proof. destruct sel; cbn; lia. Qed.
+
+Lemma pyslice_slice {A} (l : list A) a b : (0 <= a <= b)%Z ->
+  pyslice l a (b + 1) = slice (Z.to_nat a) (Z.to_nat (b - a + 1)) l.
+Proof.
+  intros H. unfold pyslice, slice, clamp, zlen.
+  replace (a <? 0)%Z with false by (symmetry; apply Z.ltb_ge; lia).
+  replace (b + 1 <? 0)%Z with false by (symmetry; apply Z.ltb_ge; lia).
+  destruct (Z.le_gt_cases a (Z.of_nat (List.length l))) as [Ha|Ha].
+  - rewrite (Z.min_l a) by lia. destruct (Z.le_gt_cases (b + 1) (Z.of_nat (List.length l))) as [Hb|Hb].
+    + rewrite Z.min_l by lia. f_equal. lia.
+    + rewrite Z.min_r by lia. rewrite Nat2Z.id.
+      rewrite !firstn_all2; [reflexivity| |]; rewrite skipn_length; lia.
+  - rewrite (Z.min_r a) by lia. rewrite Nat2Z.id. rewrite skipn_all. rewrite (skipn_all2 l) by lia.
+    rewrite !firstn_nil. reflexivity.
+Qed.
+
+Lemma sum_counts_first rows from n r : sum_counts rows from (S n) = Ok r -> nth_error rows from <> None.
+Proof. cbn. unfold zcount. destruct (nth_error rows from); [discriminate|]. cbn. discriminate. Qed.
+
+Lemma slice_nonempty {A} (l : list A) from n : nth_error l from <> None -> slice from (S n) l <> [].
+Proof.
+  intros H. unfold slice. destruct (skipn from l) as [|x r] eqn:E; [|discriminate].
+  exfalso. apply H. apply nth_error_None. assert (Hl := skipn_length from l). rewrite E in Hl. cbn in Hl. lia.
+Qed.
+
+Lemma num_read_nonempty sel rows nr : sel_ok sel -> num_read sel rows = Ok nr ->
+  rows <> [] /\ sel_counts sel rows <> [].
+Proof.
+  intros Hs H. destruct sel as [|k|a b]; cbn [num_read sel_counts sel_ok] in *.
+  - destruct rows; [discriminate|]. split; discriminate.
+  - unfold zcount in H. destruct (nth_error rows (Z.to_nat k)) eqn:E; [|discriminate].
+    split; [destruct rows; [destruct (Z.to_nat k); discriminate|discriminate]|].
+    apply slice_nonempty. congruence.
+  - replace (Z.to_nat (b - a + 1)) with (S (Z.to_nat (b - a))) in * by lia.
+    apply sum_counts_first in H. split; [destruct rows; [destruct (Z.to_nat a); cbn in H; congruence|discriminate]|].
+    apply slice_nonempty, H.
+Qed.
+
+Section ReadLoop.
+  Variables tf ti : string -> option Q.
+  Variable pv : Q -> bool.
+  Variable F : ov -> list particle -> list particle.
+  Variables (text : string) (path : ov) (fmt : string) (d : list (string * ov)) (ends nev : ov) (attrs : list string).
+  Variable first : Z.
+
+  Definition base (c : list (Z * Z)) : oself :=
+    mkO text path (OStr fmt) (ODict d) ends nev (OArr (inj_cnt c)) (enc_strs attrs).
+  Definition rl_mk (st : lstate) (rest : list line) : ov * ov * oself * ov * ov :=
+    (OFile (render_lines rest), enc_parts (data st), base (counts st), enc_events (plist st), OInt (cut st)).
+  Definition add_row (st : lstate) (p : particle) : lstate :=
+    {| plist := plist st; data := (data st ++ [p])%list; counts := counts st; cut := cut st |}.
+  Definition first_bad (l : line) : bool := negb (has "#" l) && negb (has "out" l).
+  Definition rl_step (i : Z) (st : lstate) (l : line) (rest : list line) : result (ov * ov * oself * ov * ov) :=
+    if (i =? 0)%Z && first_bad l then Err ValueError
+    else match kind_loop l with
+         | KSkip => Ok (rl_mk st rest)
+         | KEnd => st' <- close_event (flt_of F d) first st ;; Ok (rl_mk st' rest)
+         | KBad => Err ValueError
+         | KRow => p <- mk_particle tf ti pv fmt attrs l ;; Ok (rl_mk (add_row st p) rest)
+         end.
+
+  Lemma fold_read_loop (body : ov * ov * oself * ov * ov -> ov -> result (ov * ov * oself * ov * ov)) :
+    (forall st l rest i, line_ok l -> body (rl_mk st (l :: rest)) (OInt i) = rl_step i st l rest) ->
+    (forall st i, body (rl_mk st []) (OInt i) = Err IndexError) ->
+    forall n ls st, Forall line_ok ls ->
+    fold_leftM body (map OInt (zrange_n 0 n)) (rl_mk st ls)
+    = (_ <- match ls, n with
+            | l0 :: _, S _ => if first_bad l0 then Err ValueError else Ok tt
+            | _, _ => Ok tt
+            end ;;
+       match read_loop tf ti pv (flt_of F d) first fmt attrs n ls st with
+       | Ok st' => Ok (rl_mk st' (skipn n ls))
+       | Err e => Err e
+       end).
+  Proof.
+    intros P1 P2.
+    assert (G : forall n j ls st, (1 <= j)%Z -> Forall line_ok ls ->
+              fold_leftM body (map OInt (zrange_n j n)) (rl_mk st ls)
+              = match read_loop tf ti pv (flt_of F d) first fmt attrs n ls st with
+                | Ok st' => Ok (rl_mk st' (skipn n ls))
+                | Err e => Err e
+                end).
+    { induction n as [|n IH]; intros j ls st Hj Hok; [reflexivity|].
+      cbn [zrange_n map fold_leftM read_loop]. destruct ls as [|l ls].
+      - rewrite P2. reflexivity.
+      - inversion Hok as [|? ? Hl Hls]; subst. rewrite (P1 st l ls j Hl). unfold rl_step.
+        replace (j =? 0)%Z with false by (symmetry; apply Z.eqb_neq; lia). cbn [andb skipn].
+        destruct (kind_loop l).
+        + cbn [bind]. apply IH; [lia|exact Hls].
+        + destruct (close_event (flt_of F d) first st) as [st'|e]; cbn [bind]; [|reflexivity]. apply IH; [lia|exact Hls].
+        + reflexivity.
+        + destruct (mk_particle tf ti pv fmt attrs l) as [p|e]; cbn [bind]; [|reflexivity].
+          apply (IH (j + 1)%Z ls (add_row st p)); [lia|exact Hls]. }
+    intros n ls st Hok. destruct n as [|n]; [destruct ls; reflexivity|].
+    cbn [zrange_n map fold_leftM read_loop]. destruct ls as [|l ls].
+    - rewrite P2. reflexivity.
+    - inversion Hok as [|? ? Hl Hls]; subst. rewrite (P1 st l ls 0%Z Hl). unfold rl_step.
+      cbn [Z.eqb andb skipn]. destruct (first_bad l); cbn [bind]; [reflexivity|].
+      destruct (kind_loop l).
+      + cbn [bind]. apply G; [lia|exact Hls].
+      + destruct (close_event (flt_of F d) first st) as [st'|e]; cbn [bind]; [|reflexivity]. apply G; [lia|exact Hls].
+      + reflexivity.
+      + destruct (mk_particle tf ti pv fmt attrs l) as [p|e]; cbn [bind]; [|reflexivity].
+        apply (G n 1%Z ls (add_row st p)); [lia|exact Hls].
+  Qed.
+End ReadLoop.
+
+Lemma kind_loop_raw l : line_ok l ->
+  kind_loop l = if contains "event" (render_line l) && (contains "out" (render_line l) || (contains "in " (render_line l) || contains " start" (render_line l))) then KSkip
+                else if contains "#" (render_line l) && contains "end" (render_line l) then KEnd
+                else if contains "#" (render_line l) then KBad else KRow.
+Proof.
+  intros H. unfold kind_loop.
+  rewrite <- (in_plain "event" l), <- (in_plain "out" l), <- (in_plain "#" l), <- (in_plain "end" l)
+    by (reflexivity || discriminate || exact H).
+  rewrite <- (in_suffix_sp "in" l), <- (in_sp_prefix "start" l) by (reflexivity || discriminate || exact H).
+  rewrite orb_assoc. reflexivity.
+Qed.
+Lemma first_bad_raw l : line_ok l ->
+  first_bad l = negb (contains "#" (render_line l)) && negb (contains "out" (render_line l)).
+Proof.
+  intros H. unfold first_bad. rewrite <- (in_plain "out" l), <- (in_plain "#" l) by (reflexivity || discriminate || exact H).
+  reflexivity.
+Qed.
+
+Lemma akf_hand_enc F dt fv : akf_hand F (OList [enc_parts dt]) fv = Ok (OList [enc_parts (F fv dt)]).
+Proof. unfold akf_hand, enc_parts at 1. rewrite parts_of_enc. reflexivity. Qed.
+Lemma len_parts l : py_len (enc_parts l) = Ok (OInt (zlen l)).
+Proof. unfold enc_parts. cbn [py_len]. rewrite zlen_map. reflexivity. Qed.
+Lemma len_events l : py_len (enc_events l) = Ok (OInt (zlen l)).
+Proof. unfold enc_events. cbn [py_len]. rewrite zlen_map. reflexivity. Qed.
+Lemma append_events pl dt : py_append (enc_events pl) (enc_parts dt) = Ok (enc_events (pl ++ [dt])).
+Proof. unfold enc_events. cbn [py_append]. rewrite map_app. reflexivity. Qed.
+Lemma append_parts dt p : py_append (enc_parts dt) (OPart p) = Ok (enc_parts (dt ++ [p])).
+Proof. unfold enc_parts. cbn [py_append]. rewrite map_app. reflexivity. Qed.
+Lemma dec_labels_nil k : dec_labels_from k [] = [].
+Proof. unfold dec_labels_from. destruct k; reflexivity. Qed.
+
+Lemma mk_particle_nonascii tf ti pv fmt a1 a2 toks : (fmt =? "ASCII") = false ->
+  mk_particle tf ti pv fmt a1 toks = mk_particle tf ti pv fmt a2 toks.
+Proof. intros H. unfold mk_particle, mapping_of. rewrite H. reflexivity. Qed.
+
+Lemma zlen_eqb0 {A} (l : list A) : (zlen l =? 0)%Z = (List.length l =? 0)%nat.
+Proof. apply (zlen_eqb_nat l 0). Qed.
+
+Lemma sum_counts_err rows : forall n from e, sum_counts rows from n = Err e -> e = IndexError.
+Proof.
+  induction n as [|n IH]; intros from e H; [discriminate|]. cbn in H. unfold zcount in H.
+  destruct (nth_error rows from); cbn in H; [|congruence].
+  destruct (sum_counts rows (S from) n) eqn:E; cbn in H; [discriminate|]. injection H as <-. eapply IH, E.
+Qed.
+Lemma num_skip_err sel rows e : num_skip sel rows = Err e -> e = IndexError.
+Proof.
+  destruct sel; cbn; [discriminate| |]; intros H;
+    (destruct (sum_counts rows 0 _) eqn:E; cbn in H; [discriminate|]; injection H as <-; eapply sum_counts_err, E).
+Qed.
+Lemma num_read_err sel rows e : num_read sel rows = Err e -> e = IndexError.
+Proof.
+  destruct sel; cbn; intros H.
+  - destruct rows; [congruence|discriminate].
+  - unfold zcount in H. destruct (nth_error rows _); cbn in H; congruence.
+  - eapply sum_counts_err, H.
+Qed.
+
+(* two premises *)
+Ltac with_loop2 L G :=
+  match goal with |- context [fold_leftM ?b _ _] => pose proof (L b) as G; cbv beta in G end;
+  match type of G with (?P -> ?Q -> _) =>
+    let H1 := fresh "Hb" in let H2 := fresh "Hb" in
+    assert (H1 : P); [clear G|assert (H2 : Q); [clear G|specialize (G H1 H2); clear H1 H2]] end.
+
+Theorem source_set_particle_list tf ti pv F ls path fmt d ends nev rows foots attrs sel :
+  Forall line_ok ls -> assoc "events" d = sel_val sel -> sel_ok sel ->
+  gen_set_particle_list ti (Particle_hand (mk_particle tf ti pv)) (akf_hand F)
+     (mkO (render_lines ls) path (OStr fmt) (ODict d) ends (OInt nev) (OArr (cnt_of rows)) (enc_strs attrs)) (ODict d)
+  = match load_tail tf ti pv (flt_of F d) ls sel fmt attrs nev (rows, foots) with
+    | Ok ld => Ok (mkO (render_lines ls) path (OStr fmt) (ODict d) ends (OInt (l_nevents ld)) (OArr (inj_cnt (l_counts ld)))
+                       (enc_strs attrs), enc_events (l_events ld))
+    | Err e => Err e
+    end.
+Proof.
+  intros Hok Hs Hsel. unfold gen_set_particle_list. cbv zeta.
+  set (self0 := mkO (render_lines ls) path (OStr fmt) (ODict d) ends (OInt nev) (OArr (cnt_of rows)) (enc_strs attrs)).
+  pose proof (source_get_num_read_lines ti self0 d sel rows eq_refl Hs (sel_ok_nonneg _ Hsel) eq_refl) as G.
+  destruct (num_read sel rows) as [nr|e] eqn:Enr; cbn [int_of] in G.
+  2:{ rewrite G. cbn [bind]. unfold load_tail. cbn [fst]. rewrite Enr.
+      destruct (num_skip sel rows) as [ns|e'] eqn:Ens; cbn [bind]; [reflexivity|].
+      rewrite (num_skip_err _ _ _ Ens), (num_read_err _ _ _ Enr). reflexivity. }
+  destruct G as (vr & Hvr & Havr). rewrite Hvr. cbn [bind]. cbv iota beta.
+  unfold py_open. cbn [o_text self0].
+  rewrite (source_skip_lines self0 d sel rows ls eq_refl Hs eq_refl Hok).
+  destruct (num_skip sel rows) as [ns|e] eqn:Ens; cbn [bind].
+  2:{ unfold load_tail. cbn [fst]. rewrite Ens. reflexivity. }
+  cbv iota beta. subst self0.
+  destruct (num_read_nonempty sel rows nr Hsel Enr) as (Hrows & Hsc).
+  assert (Hcnt : cnt_of rows = A2 rows) by (destruct rows; [congruence|reflexivity]). rewrite Hcnt.
+  match goal with |- bind ?pre _ = _ =>
+    assert (Hpre : pre = Ok (base (render_lines ls) path fmt d ends (OInt nev) attrs (sel_counts sel rows), OInt (sel_first sel))) end.
+  { cbn [py_getattr attr_get o_opts bind py_keys]. rewrite in_keys, Hs. rewrite !getitem_dict, Hs. unfold base.
+    destruct sel as [|k|a b]; cbn [sel_val bind py_isinstance sel_first sel_counts sel_ok] in *.
+    - destruct rows; [congruence|reflexivity].
+    - cbn [py_getattr attr_get o_cnt bind py_add as_int int_like py_slice].
+      rewrite (pyslice_slice rows k k) by lia. replace (k - k + 1)%Z with 1%Z by lia.
+      cbn [py_setattr o_text o_path o_fmt o_opts o_ends o_nev o_attrs].
+      change (Z.to_nat 1) with 1%nat. destruct (slice (Z.to_nat k) 1 rows); [congruence|reflexivity].
+    - cbn [py_unpack2 bind py_getattr attr_get o_cnt py_add as_int int_like py_slice].
+      rewrite (pyslice_slice rows a b) by lia.
+      cbn [py_setattr o_text o_path o_fmt o_opts o_ends o_nev o_attrs].
+      destruct (slice (Z.to_nat a) (Z.to_nat (b - a + 1)) rows); [congruence|reflexivity]. }
+  rewrite Hpre. cbn [bind]. cbv iota beta. rewrite (range_int vr nr Havr). cbn [bind].
+  change (OFile (render_lines (skipn (Z.to_nat ns) ls)), OList [],
+          base (render_lines ls) path fmt d ends (OInt nev) attrs (sel_counts sel rows), OList [], OInt 0)
+    with (rl_mk (render_lines ls) path fmt d ends (OInt nev) attrs
+            {| plist := []; data := []; counts := sel_counts sel rows; cut := 0 |} (skipn (Z.to_nat ns) ls)).
+  with_loop2 (fold_read_loop tf ti pv F (render_lines ls) path fmt d ends (OInt nev) attrs (sel_first sel)) G.
+  { intros st l rest i Hl. unfold rl_mk. cbv beta iota. rewrite (readline_lines l rest Hl). cbv beta iota.
+    cbn [py_truthy notM bind negb]. rewrite render_line_nonempty. cbn [negb py_in py_not_in notM andM orM bind py_eq as_int].
+    unfold rl_step. rewrite (kind_loop_raw l Hl), (first_bad_raw l Hl).
+    match goal with |- context [bind (py_len (enc_parts (data st))) ?K] =>
+      set (KEND := bind (py_len (enc_parts (data st))) K) end.
+    assert (HK : KEND = (st' <- close_event (flt_of F d) (sel_first sel) st ;;
+                         Ok (rl_mk (render_lines ls) path fmt d ends (OInt nev) attrs st' rest))).
+    { subst KEND. destruct st as [pl dt cn ct]. unfold close_event, rl_mk, flt_of. cbn [data plist counts cut].
+      unfold base at 1. cbn [py_getattr attr_get o_opts bind py_keys]. rewrite !len_parts, !len_events. cbn [bind].
+      rewrite in_keys, getitem_dict.
+      destruct (assoc "filters" d) as [fv|]; cbn [bind].
+      - rewrite akf_hand_enc. cbn [bind].
+        change (py_getitem (OList [enc_parts (F fv dt)]) (OInt 0)) with (Ok (enc_parts (F fv dt))). cbn [bind].
+        rewrite !len_parts. cbn [py_ne py_eq as_int notM bind orM]. rewrite !zlen_eqb0.
+        set (keep := negb (List.length (F fv dt) =? 0)%nat || (List.length dt =? 0)%nat).
+        assert (Hkeep : (if negb (List.length (F fv dt) =? 0)%nat then Ok true else Ok (List.length dt =? 0)%nat) = Ok keep).
+        { subst keep. destruct (List.length (F fv dt) =? 0)%nat; reflexivity. }
+        rewrite !Hkeep. cbn [bind]. destruct keep.
+        + cbn [py_add as_int int_like bind]. unfold base at 1 2. cbn [py_getattr attr_get o_cnt bind]. unfold zlen.
+          rewrite setitem_inj.
+          destruct (set_row _ _ cn) as [c'|e]; cbn [bind]; [|reflexivity]. cbv iota beta.
+          rewrite len_parts. cbn [py_ne py_eq as_int notM bind orM]. rewrite zlen_eqb0, Hkeep. cbn [bind].
+          rewrite append_events. cbn [bind plist data counts cut]. reflexivity.
+        + unfold base at 1 2. cbn [py_getattr attr_get o_cnt bind]. unfold zlen.
+          rewrite delete_inj. destruct (List.length pl <? List.length cn)%nat; cbn [bind]; [|reflexivity].
+          set (r := delete_row (List.length pl) cn). set (k := List.length pl).
+          cbn [py_setattr py_getattr attr_get o_cnt o_text o_path o_fmt o_opts o_ends o_nev o_attrs bind py_shape].
+          change (py_getitem (OTuple [OInt (zlen r); OInt 2]) (OInt 0)) with (Ok (OInt (zlen r))).
+          cbn [bind py_eq as_int py_lt py_cmp]. rewrite zlen_eqb0.
+          assert (Hinj : forall r', r' <> [] -> inj_cnt r' = A2 r') by (intros [|? ?] ?; [congruence|reflexivity]).
+          assert (Hdt : py_len (enc_parts (F fv dt)) = Ok (OInt (zlen (F fv dt)))) by apply len_parts.
+          destruct (List.length r =? 0)%nat eqn:Er; cbn [bind].
+          * apply Nat.eqb_eq in Er. destruct r as [|? ?]; [|discriminate]. rewrite dec_labels_nil.
+            cbv iota beta. rewrite Hdt. cbn [py_ne py_eq as_int notM bind orM]. rewrite zlen_eqb0, Hkeep. reflexivity.
+          * apply Nat.eqb_neq in Er. unfold zlen. destruct (Z.ltb_spec (Z.of_nat k) (Z.of_nat (List.length r))); cbn [bind].
+            -- rewrite isub_dec by lia. cbn [bind]. cbv iota beta. rewrite Hdt.
+               cbn [py_ne py_eq as_int notM bind orM]. rewrite zlen_eqb0, Hkeep. cbn [bind]. unfold base. cbn [counts plist data cut].
+               rewrite Hinj; [reflexivity|]. intros E. apply (f_equal (@List.length _)) in E. rewrite dec_labels_length in E. cbn in E. lia.
+            -- cbv iota beta. rewrite Hdt. cbn [py_ne py_eq as_int notM bind orM]. rewrite zlen_eqb0, Hkeep. cbn [bind].
+               rewrite dec_labels_all by lia. unfold base. cbn [counts plist data cut].
+               rewrite Hinj; [reflexivity|]. intros E. subst r. rewrite E in Er. cbn in Er. lia.
+      - rewrite len_parts. cbn [py_ne py_eq as_int notM bind orM]. rewrite zlen_eqb0.
+        destruct (List.length dt =? 0)%nat; cbn [negb orb bind].
+        + rewrite append_events. reflexivity.
+        + rewrite append_events. reflexivity. }
+    rewrite HK. clearbody KEND. clear HK.
+    match goal with |- context [if contains "#" (render_line l) then Err ValueError else ?R] => set (ROW := R) end.
+    assert (HR : ROW = (p <- mk_particle tf ti pv fmt attrs l ;;
+                        Ok (rl_mk (render_lines ls) path fmt d ends (OInt nev) attrs (add_row st p) rest))).
+    { subst ROW. cbn [py_str_replace py_str_split bind]. change (split_on " "%char) with (split_on sp).
+      rewrite (tokens_of_line l Hl). cbn [py_np_asarray bind]. unfold base.
+      unfold enc_strs. cbn [py_getattr attr_get o_fmt o_attrs py_eq bind]. unfold Particle_hand. rewrite !strs_of_enc.
+      destruct (fmt =? "ASCII") eqn:Ef; cbn [bind].
+      - destruct (mk_particle tf ti pv fmt attrs l) as [p|e]; cbn [bind]; [|reflexivity].
+        rewrite append_parts. reflexivity.
+      - rewrite (mk_particle_nonascii tf ti pv fmt [] attrs l Ef).
+        destruct (mk_particle tf ti pv fmt attrs l) as [p|e]; cbn [bind]; [|reflexivity].
+        rewrite append_parts. reflexivity. }
+    rewrite HR. clearbody ROW. clear HR.
+    destruct (i =? 0)%Z, (contains "#" (render_line l)), (contains "out" (render_line l)), (contains "event" (render_line l)),
+      (contains "in " (render_line l)), (contains " start" (render_line l)), (contains "end" (render_line l)); reflexivity. }
+  { intros st i. unfold rl_mk. cbv beta iota. change (render_lines []) with "". rewrite readline_eof. reflexivity. }
+  assert (Hok' : Forall line_ok (skipn (Z.to_nat ns) ls)).
+  { rewrite Forall_forall in *. intros x Hx. apply Hok. rewrite <- (firstn_skipn (Z.to_nat ns) ls). apply in_or_app. right. exact Hx. }
+  rewrite (G (Z.to_nat nr) _ _ Hok'). clear G.
+  unfold load_tail. cbn [fst snd]. rewrite Ens, Enr. cbn [bind]. unfold first_bad.
+  match goal with |- context [bind ?c _] =>
+    match c with (match skipn _ _ with _ => _ end) => destruct c as [[]|e]; cbn [bind]; [|reflexivity] end end.
+  destruct (read_loop _ _ _ _ _ _ _ _ _ _) as [st|e]; cbn [bind]; [|reflexivity].
+  unfold rl_mk. cbv iota beta. unfold base. cbn [py_getattr attr_get o_nev o_opts py_sub as_int int_like bind py_setattr
+    o_text o_path o_fmt o_ends o_cnt o_attrs].
+  rewrite no_events_cond, Hs, len_events.
+  assert (Hpl : (c147_ <- py_eq (enc_events (plist st)) (OList []) ;;
+                 (if c147_ then Ok (OList [OList []]) else Ok (enc_events (plist st))))
+                = Ok (enc_events (match plist st with [] => [[]] | pl => pl end))).
+  { destruct (plist st); reflexivity. }
+  rewrite Hpl. clear Hpl. unfold zlen.
+  destruct sel as [|k|a b]; cbn [sel_val bind py_ne py_eq as_int notM].
+  - destruct (Z.of_nat (List.length (plist st)) =? nev - cut st)%Z; reflexivity.
+  - reflexivity.
+  - reflexivity.
+Qed.
+
+
+Lemma drop_app a b : drop (String.length a) (a ++ b) = b.
+Proof. induction a as [|c a IH]; [reflexivity|]. cbn. exact IH. Qed.
+Lemma drop_add n m s : drop (n + m) s = drop m (drop n s).
+Proof.
+  revert s; induction n as [|n IH]; intros s; [reflexivity|].
+  destruct s as [|c s]; cbn [Nat.add drop]; [destruct m; reflexivity|apply IH].
+Qed.
+Lemma drop_head_no_nl L j rest : no_char nlc L = true -> (j < String.length L)%nat ->
+  exists c r, drop j (L ++ rest) = String c r /\ Ascii.eqb c nlc = false.
+Proof.
+  revert j; induction L as [|a L IH]; intros j Hn Hj; [cbn in Hj; lia|].
+  cbn in Hn. apply andb_true_iff in Hn. destruct Hn as [Ha HL]. apply negb_true_iff in Ha.
+  destruct j as [|j].
+  - exists a, (L ++ rest). split; [reflexivity|exact Ha].
+  - cbn [append drop]. apply IH; [exact HL|cbn in Hj; lia].
+Qed.
+
+Lemma seek_cur s p off : (0 <= p + off)%Z -> py_seek (OBin s p) (OInt off) (OInt 1) = Ok (OBin s (p + off)).
+Proof.
+  intros H. unfold py_seek. change (1 =? 2)%Z with false. change (1 =? 1)%Z with true. cbv iota.
+  replace (p + off <? 0)%Z with false by (symmetry; apply Z.ltb_ge; lia). reflexivity.
+Qed.
+Lemma seek_cur_neg s p off : (p + off < 0)%Z -> py_seek (OBin s p) (OInt off) (OInt 1) = Err OtherError.
+Proof.
+  intros H. unfold py_seek. change (1 =? 2)%Z with false. change (1 =? 1)%Z with true. cbv iota.
+  replace (p + off <? 0)%Z with true by (symmetry; apply Z.ltb_lt; lia). reflexivity.
+Qed.
+Lemma seek_end s p off : py_seek (OBin s p) (OInt off) (OInt 2)
+  = if (Z.of_nat (String.length s) + off <? 0)%Z then Err OtherError else Ok (OBin s (Z.of_nat (String.length s) + off)).
+Proof. unfold py_seek. change (2 =? 2)%Z with true. cbv iota. reflexivity. Qed.
+
+(* the backward search for the last line: the text is  Q "\n" L "\n"  with L free of newlines *)
+Section LastLine.
+  Variables (Q L : string).
+  Hypothesis HL : no_char nlc L = true.
+  Let text := Q ++ String nlc (L ++ String nlc "").
+  Let n0 := Z.of_nat (String.length Q).
+
+  Lemma text_length : Z.of_nat (String.length text) = (n0 + 1 + Z.of_nat (String.length L) + 1)%Z.
+  Proof. unfold text, n0. rewrite length_append. cbn [String.length]. rewrite length_append. cbn [String.length]. lia. Qed.
+
+  Lemma drop_at_nl : drop (String.length Q) text = String nlc (L ++ String nlc "").
+  Proof. apply drop_app. Qed.
+  Lemma drop_in_L j : drop (String.length Q + 1 + j) text = drop j (L ++ String nlc "").
+  Proof. rewrite <- Nat.add_assoc, drop_add, drop_at_nl. reflexivity. Qed.
+
+  Lemma back_search (body : ov -> result (lres ov)) :
+    (forall p c r, drop (Z.to_nat p) text = String c r -> (0 <= p)%Z ->
+       body (OBin text p) = if Ascii.eqb c nlc then Ok (LBreak (OBin text (p + 1)))
+                            else (f <- py_seek (OBin text (p + 1)) (OInt (-2)) (OInt 1) ;; Ok (LNext f))) ->
+    forall j fuel, (j <= String.length L)%nat -> (j < fuel)%nat ->
+    py_while fuel body (OBin text (n0 + Z.of_nat j)) = Ok (OBin text (n0 + 1)).
+  Proof.
+    intros Hb. induction j as [|j IH]; intros fuel Hj Hf; (destruct fuel as [|fuel]; [lia|]); cbn [py_while].
+    - rewrite (Hb _ nlc (L ++ String nlc "")).
+      + rewrite Ascii.eqb_refl. cbn [bind]. f_equal. f_equal. lia.
+      + replace (Z.to_nat (n0 + Z.of_nat 0)) with (String.length Q) by (unfold n0; lia). apply drop_at_nl.
+      + unfold n0. lia.
+    - destruct (drop_head_no_nl L j (String nlc "") HL ltac:(lia)) as (c & r & Hd & Hc).
+      rewrite (Hb _ c r).
+      + rewrite Hc. rewrite seek_cur by (unfold n0; lia).
+        cbn [bind]. replace (n0 + Z.of_nat (S j) + 1 + -2)%Z with (n0 + Z.of_nat j)%Z by lia.
+        apply IH; lia.
+      + replace (Z.to_nat (n0 + Z.of_nat (S j))) with (String.length Q + 1 + j)%nat by (unfold n0; lia).
+        rewrite drop_in_L. exact Hd.
+      + unfold n0. lia.
+  Qed.
+End LastLine.
+
+Lemma join_snoc_app c a x y : join c (a ++ [x ++ y]) = join c (a ++ [x]) ++ y.
+Proof.
+  induction a as [|t a IH]; [reflexivity|]. cbn [app].
+  destruct a as [|t' a'].
+  - cbn [app join]. rewrite append_assoc. reflexivity.
+  - change (join c (t :: (t' :: a') ++ [x ++ y])) with (t ++ String c (join c ((t' :: a') ++ [x ++ y]))).
+    change (join c (t :: (t' :: a') ++ [x])) with (t ++ String c (join c ((t' :: a') ++ [x]))).
+    rewrite IH, append_assoc. reflexivity.
+Qed.
+
+Lemma removelast_s_eq l : removelast_s l = removelast l.
+Proof. induction l as [|x [|y l] IH]; try reflexivity; cbn [removelast_s removelast] in *; f_equal; exact IH. Qed.
+
+Lemma split_raw l : line_ok l ->
+  split_on sp (render_line l) = (removelast l ++ [(last l "" ++ String nlc "")%string])%list.
+Proof.
+  intros [Hne Hall]. unfold render_line.
+  rewrite (app_removelast_last "" Hne) at 1. rewrite <- join_snoc_app.
+  apply split_join; [destruct (removelast l); discriminate|].
+  rewrite forallb_app. cbn [forallb]. rewrite andb_true_r.
+  assert (Hl : forallb (no_char sp) l = true).
+  { rewrite forallb_forall in *. intros t Ht. specialize (Hall t Ht). unfold tok_ok in Hall. apply andb_true_iff in Hall. tauto. }
+  rewrite (app_removelast_last "" Hne), forallb_app in Hl. cbn [forallb] in Hl. rewrite andb_true_r in Hl.
+  apply andb_true_iff in Hl. destruct Hl as [H1 H2]. rewrite H1, no_char_app, H2. reflexivity.
+Qed.
+
+Lemma eqb_app_nl p x : no_char nlc p = true -> (p =? x ++ String nlc "") = false.
+Proof.
+  intros Hp. destruct (String.eqb_spec p (x ++ String nlc "")) as [E|]; [|reflexivity].
+  subst p. rewrite no_char_app in Hp. apply andb_true_iff in Hp. destruct Hp as [_ Hp]. cbn in Hp. discriminate.
+Qed.
+Lemma mem_raw p l : no_char nlc p = true ->
+  mem_str p (removelast l ++ [(last l "" ++ String nlc "")%string])%list = mem_str p (removelast_s l).
+Proof.
+  intros Hp. unfold mem_str. rewrite existsb_app. cbn [existsb]. rewrite (eqb_app_nl p _ Hp). cbn [orb].
+  rewrite orb_false_r. reflexivity.
+Qed.
+
+Lemma render_lines_snoc pre l : render_lines (pre ++ [l]) = render_lines pre ++ join sp l ++ String nlc "".
+Proof. rewrite render_lines_app. reflexivity. Qed.
+Lemma render_lines_ends_nl pre : pre <> [] -> exists Q, render_lines pre = Q ++ String nlc "".
+Proof.
+  intros H. destruct (exists_last H) as (pre' & x & ->). exists (render_lines pre' ++ join sp x).
+  rewrite render_lines_snoc, append_assoc. reflexivity.
+Qed.
+
+Theorem source_set_num_events ti path fmt opts ends nev cnt attrs pre lst :
+  (forall t, ti (t ++ String nlc "") = ti t) -> pre <> [] -> line_ok lst ->
+  gen_set_num_events ti (mkO (render_lines (pre ++ [lst])) path fmt opts ends nev cnt attrs)
+  = match num_events_of ti lst with
+    | Ok z => Ok (mkO (render_lines (pre ++ [lst])) path fmt opts ends (OInt z) cnt attrs, ONone)
+    | Err e => Err e
+    end.
+Proof.
+  intros Hnl Hpre Hl. destruct (render_lines_ends_nl pre Hpre) as (Q & HQ).
+  assert (Htext : render_lines (pre ++ [lst]) = Q ++ String nlc (join sp lst ++ String nlc "")).
+  { rewrite render_lines_snoc, HQ, append_assoc. reflexivity. }
+  set (L := join sp lst) in *. assert (HL : no_char nlc L = true) by (apply line_ok_nl, Hl).
+  set (text := render_lines (pre ++ [lst])) in *.
+  unfold gen_set_num_events. cbv zeta. unfold py_open. cbn [o_text].
+  rewrite seek_end. pose proof (text_length Q L) as Hlen. cbv zeta in Hlen. rewrite <- Htext in Hlen.
+  replace (Z.of_nat (String.length text) + -2 <? 0)%Z with false by (symmetry; apply Z.ltb_ge; lia).
+  cbn [bind]. clearbody text. subst text.
+  replace (Z.of_nat (String.length Q) + 1 + Z.of_nat (String.length L) + 1 + -2)%Z
+    with (Z.of_nat (String.length Q) + Z.of_nat (String.length L))%Z in * by lia.
+  rewrite Hlen.
+  replace (Z.of_nat (String.length Q) + 1 + Z.of_nat (String.length L) + 1 + -2)%Z
+    with (Z.of_nat (String.length Q) + Z.of_nat (String.length L))%Z by lia.
+  match goal with |- context [py_while ?f ?b ?s] => pose proof (back_search Q L HL b) as W; cbv beta in W end.
+  match type of W with (?P -> _) => assert (W1 : P); [clear W|specialize (W W1); clear W1] end.
+  { intros p c r Hd Hp. cbn [py_read]. rewrite Hd. cbn [bind]. cbv iota beta.
+    cbn [py_ne py_eq notM bind String.eqb]. destruct (Ascii.eqb c nlc); reflexivity. }
+  rewrite (W (String.length L)); [|lia|].
+  2:{ unfold py_fuel. cbn [fold_right fuel_of]. rewrite length_append. cbn [String.length]. rewrite length_append. lia. }
+  cbn [bind py_readline].
+  replace (Z.to_nat (Z.of_nat (String.length Q) + 1)) with (String.length Q + 1 + 0)%nat by lia.
+  rewrite (drop_in_L Q L). cbn [drop]. rewrite (read_line_app L "" HL). cbv iota beta.
+  cbn [py_decode bind py_str_split]. change (split_on " "%char) with (split_on sp).
+  change (L ++ String nlc "") with (render_line lst). rewrite (split_raw lst Hl). clear W Hlen.
+  rewrite py_in_strs, (mem_raw "event" lst eq_refl).
+  change (OInt 0) with (OInt (Z.of_nat 0)). change (OInt 2) with (OInt (Z.of_nat 2)).
+  rewrite !getitem_list_nat, !nth_error_map_some. unfold num_events_of.
+  assert (Hhash : forall x, (x ++ String nlc "" =? "#") = false).
+  { intros x. rewrite String.eqb_sym. apply eqb_app_nl. reflexivity. }
+  destruct lst as [|t0 [|t1 [|t2 [|t3 tl]]]].
+  - destruct Hl; congruence.
+  - cbn [removelast last app nth_error option_map bind py_eq andM nth List.length Nat.leb andb]. rewrite Hhash.
+    rewrite andb_false_r. reflexivity.
+  - cbn [removelast last app nth_error option_map bind py_eq andM nth List.length Nat.leb andb removelast_s].
+    rewrite andb_true_r. destruct (t0 =? "#"); cbn [bind andb]; [|reflexivity].
+    destruct (mem_str "event" [t0]); reflexivity.
+  - cbn [removelast last app nth_error option_map bind py_eq andM nth List.length Nat.leb andb removelast_s].
+    rewrite andb_true_r. destruct (t0 =? "#"); cbn [bind andb]; [|reflexivity].
+    destruct (mem_str "event" [t0; t1]); cbn [bind py_int]; [|reflexivity]. rewrite Hnl.
+    destruct (ti t2); reflexivity.
+  - cbn [removelast last app nth_error option_map bind py_eq andM nth List.length Nat.leb andb removelast_s].
+    rewrite andb_true_r. destruct (t0 =? "#"); cbn [bind andb]; [|reflexivity].
+    destruct (mem_str "event" _); cbn [bind py_int]; [|reflexivity].
+    destruct (ti t2); reflexivity.
+Qed.
+
+
+Lemma pyget_neg {A} (l : list A) k :
+  pyget l (- Z.of_nat (S k)) = match nth_error (rev l) k with Some x => Ok x | None => Err IndexError end.
+Proof.
+  revert k. induction l as [|x l IH] using rev_ind; intros k.
+  - unfold pyget, zlen. cbn [List.length rev nth_error].
+    replace (- Z.of_nat (S k) <? 0)%Z with true by (symmetry; apply Z.ltb_lt; lia).
+    replace (Z.of_nat 0 + - Z.of_nat (S k) <? 0)%Z with true by (symmetry; apply Z.ltb_lt; lia). destruct k; reflexivity.
+  - rewrite rev_app_distr. cbn [rev app]. unfold pyget, zlen. rewrite app_length. cbn [List.length].
+    replace (- Z.of_nat (S k) <? 0)%Z with true by (symmetry; apply Z.ltb_lt; lia).
+    destruct k as [|k].
+    + replace (Z.of_nat (List.length l + 1) + - Z.of_nat 1 <? 0)%Z with false by (symmetry; apply Z.ltb_ge; lia).
+      replace (Z.to_nat (Z.of_nat (List.length l + 1) + - Z.of_nat 1)) with (List.length l) by lia.
+      rewrite nth_error_app2 by lia. rewrite Nat.sub_diag. reflexivity.
+    + cbn [nth_error]. specialize (IH k). unfold pyget, zlen in IH.
+      replace (- Z.of_nat (S k) <? 0)%Z with true in IH by (symmetry; apply Z.ltb_lt; lia).
+      replace (Z.of_nat (List.length l + 1) + - Z.of_nat (S (S k)))%Z with (Z.of_nat (List.length l) + - Z.of_nat (S k))%Z by lia.
+      destruct (Z.of_nat (List.length l) + - Z.of_nat (S k) <? 0)%Z eqn:E; [exact IH|].
+      apply Z.ltb_ge in E. rewrite nth_error_app1 by lia. exact IH.
+Qed.
+
+Lemma fold_append_map (body : ov -> ov -> result ov) (f : ov -> result ov) :
+  (forall acc x, body (OList acc) x = (v <- f x ;; Ok (OList (acc ++ [v])))) ->
+  forall xs acc, fold_leftM body xs (OList acc) = (r <- mapM f xs ;; Ok (OList (acc ++ r))).
+Proof.
+  intros Hb. induction xs as [|x xs IH]; intros acc; cbn [fold_leftM mapM bind]; [rewrite app_nil_r; reflexivity|].
+  rewrite Hb. destruct (f x) as [v|e]; cbn [bind]; [|reflexivity]. rewrite IH.
+  destruct (mapM f xs) as [r|e]; cbn [bind]; [|reflexivity]. rewrite <- app_assoc. reflexivity.
+Qed.
+
+Lemma filter_truthy_strs (l : list string) :
+  filterM py_truthy (map OStr l) = Ok (map OStr (filter (fun s => negb (s =? "")) l)).
+Proof.
+  induction l as [|x l IH]; [reflexivity|]. cbn [map filterM py_truthy bind filter]. rewrite IH. cbn [bind].
+  destruct (x =? ""); reflexivity.
+Qed.
+
+(* float(list(filter(None, line.split(" ")))[-3]) on a raw end line whose last token is not empty *)
+Lemma impact_raw tf (l : line) : line_ok l -> last l "" <> "" ->
+  (ls <- py_str_split (OStr (render_line l)) (OStr " ") ;; ls2 <- (v <- py_filter_none ls ;; py_list v) ;;
+   v3 <- py_getitem ls2 (OInt (-3)) ;; py_float tf v3)
+  = match impact_of tf l with Ok q => Ok (OFloat q) | Err e => Err e end.
+Proof.
+  intros Hl Hlast. cbn [py_str_split bind]. change (split_on " "%char) with (split_on sp). rewrite (split_raw l Hl).
+  cbn [py_filter_none py_iter bind]. rewrite filter_truthy_strs. cbn [bind py_list py_iter py_getitem as_int].
+  change (-3)%Z with (- Z.of_nat 3)%Z. rewrite pyget_neg. unfold impact_of.
+  rewrite filter_app, map_app, rev_app_distr. cbn [filter].
+  replace ((last l "" ++ String nlc "")%string =? "") with false by (destruct (last l ""); reflexivity).
+  cbn [negb map rev app nth_error].
+  rewrite (app_removelast_last "" (proj1 Hl)) at 2. rewrite filter_app. cbn [filter].
+  replace (last l "" =? "") with false by (symmetry; apply String.eqb_neq; exact Hlast).
+  cbn [negb]. rewrite rev_app_distr. cbn [rev app nth_error]. rewrite <- map_rev.
+  destruct (rev (filter (fun s => negb (s =? "")) (removelast l))) as [|a [|b r]]; cbn [map bind py_float]; try reflexivity.
+  destruct (tf b); reflexivity.
+Qed.
+
+Lemma mapM_impacts tf (f : ov -> result ov) foots :
+  Forall line_ok foots -> Forall (fun l => last l "" <> "") foots ->
+  (forall l, line_ok l -> last l "" <> "" -> f (OStr (render_line l)) = match impact_of tf l with Ok q => Ok (OFloat q) | Err e => Err e end) ->
+  mapM f (map (fun l => OStr (render_line l)) foots)
+  = match mapr (impact_of tf) foots with Ok qs => Ok (map OFloat qs) | Err e => Err e end.
+Proof.
+  intros H1 H2 Hf. induction foots as [|l foots IH]; [reflexivity|].
+  inversion H1; inversion H2; subst. cbn [map mapM mapr]. rewrite Hf by assumption.
+  destruct (impact_of tf l) as [q|e]; cbn [bind]; [|reflexivity]. rewrite IH by assumption.
+  destruct (mapr (impact_of tf) foots); reflexivity.
+Qed.
+
+Lemma mapM_lookup (imps : list Q) (f : ov -> result ov) counts :
+  Forall (fun c : Z * Z => (0 <= fst c)%Z) counts ->
+  (forall z, (0 <= z)%Z -> f (ONpInt z) = match nth_error imps (Z.to_nat z) with Some v => Ok (OFloat v) | None => Err IndexError end) ->
+  mapM f (map ONpInt (map fst counts))
+  = match mapr (fun c : Z * Z => match nth_error imps (Z.to_nat (fst c)) with Some v => Ok v | None => Err IndexError end) counts with
+    | Ok qs => Ok (map OFloat qs) | Err e => Err e end.
+Proof.
+  intros H Hf. induction counts as [|c counts IH]; [reflexivity|]. inversion H; subst.
+  cbn [map mapM mapr]. rewrite Hf by assumption.
+  destruct (nth_error imps (Z.to_nat (fst c))); cbn [bind]; [|reflexivity]. rewrite IH by assumption.
+  destruct (mapr _ counts); reflexivity.
+Qed.
+
+Theorem source_impact_parameter tf text path fmt opts nev attrs foots counts ld :
+  Forall line_ok foots -> Forall (fun l => last l "" <> "") foots -> Forall (fun c : Z * Z => (0 <= fst c)%Z) counts ->
+  l_footers ld = foots -> l_counts ld = counts ->
+  gen_impact_parameter tf (mkO text path fmt opts (enc_foots foots) nev (OArr (inj_cnt counts)) attrs)
+  = match impact_parameters tf ld with
+    | Ok qs => Ok (mkO text path fmt opts (enc_foots foots) nev (OArr (inj_cnt counts)) attrs, OList (map OFloat qs))
+    | Err e => Err e
+    end.
+Proof.
+  intros H1 H2 H3 Hf Hc. unfold gen_impact_parameter, impact_parameters. rewrite Hf, Hc. cbv zeta.
+  cbn [py_getattr attr_get o_ends o_cnt enc_foots bind py_iter].
+  match goal with |- context [fold_leftM ?b _ _] =>
+    pose proof (fold_append_map b (fun line => ls <- py_str_split line (OStr " ") ;; ls2 <- (v <- py_filter_none ls ;; py_list v) ;;
+                                               v3 <- py_getitem ls2 (OInt (-3)) ;; py_float tf v3)) as G; cbv beta in G end.
+  match type of G with (?P -> _) => assert (Hb : P); [clear G|specialize (G Hb); clear Hb] end.
+  { intros acc x. destruct (py_str_split x (OStr " ")) as [ls|e]; cbn [bind]; [|reflexivity].
+    destruct (py_filter_none ls) as [v|e]; cbn [bind]; [|reflexivity].
+    destruct (py_list v) as [ls2|e]; cbn [bind]; [|reflexivity].
+    destruct (py_getitem ls2 (OInt (-3))) as [v3|e]; cbn [bind]; [|reflexivity].
+    destruct (py_float tf v3) as [q|e]; reflexivity. }
+  rewrite G. clear G. rewrite (mapM_impacts tf _ foots H1 H2 (fun l Hl Hlast => impact_raw tf l Hl Hlast)).
+  destruct (mapr (impact_of tf) foots) as [imps|e]; cbn [bind app]; [|reflexivity].
+  destruct counts as [|c0 counts].
+  - reflexivity.
+  - cbn [inj_cnt py_shape bind]. set (cs := c0 :: counts) in *.
+    change (py_getitem (OTuple [OInt (zlen cs); OInt 2]) (OInt 0)) with (Ok (OInt (zlen cs))).
+    cbn [bind py_eq as_int]. replace (zlen cs =? 0)%Z with false by (symmetry; apply Z.eqb_neq; unfold zlen, cs; cbn [List.length]; lia).
+    cbn [bind py_getcol as_int col_of Z.eqb orb py_iter rget].
+    change (map (fun r : Z * Z => fst r) cs) with (map fst cs).
+    rewrite (mapM_lookup imps _ cs H3).
+    + destruct (mapr _ cs); reflexivity.
+    + intros z Hz. cbn [py_getitem as_int]. rewrite (pyget_pos _ z Hz), nth_error_map_some.
+      destruct (nth_error imps (Z.to_nat z)); reflexivity.
+Qed.
+
+
+(* for keys in kwargs.keys(): if keys not in ["events", "filters"]: raise ValueError *)
+Lemma fold_keys (body : unit -> ov -> result unit) d :
+  (forall k, body tt (OStr k) = if String.eqb "events" k || String.eqb "filters" k then Ok tt else Err ValueError) ->
+  fold_leftM body (map (fun kv : string * ov => OStr (fst kv)) d) tt = if keys_ok d then Ok tt else Err ValueError.
+Proof.
+  intros Hb. induction d as [|[k v] d IH]; [reflexivity|]. cbn [map fold_leftM fst keys_ok forallb]. rewrite Hb.
+  destruct (String.eqb "events" k || String.eqb "filters" k); cbn [bind andb]; [exact IH|reflexivity].
+Qed.
+
+Lemma load_eq tf ti pv flt first rest sel :
+  load tf ti pv flt (first :: rest) sel
+  = (fa <- oscar_format first ;;
+     _ <- (if (fst fa =? "Oscar2013Extended_IC") || (fst fa =? "Oscar2013Extended_Photons") then Err OtherError else Ok tt) ;;
+     nev <- num_events_of ti (last (first :: rest) []) ;;
+     sc <- scan ti (first :: rest) ;;
+     load_tail tf ti pv flt (first :: rest) sel (fst fa) (snd fa) nev sc).
+Proof. reflexivity. Qed.
+
+Lemma oscar_format_attrs first fmt attrs : oscar_format first = Ok (fmt, attrs) -> (fmt =? "ASCII") = false -> attrs = [].
+Proof.
+  unfold oscar_format. intros H Hf.
+  repeat match type of H with (if ?c then _ else _) = _ => destruct c end; try discriminate;
+    injection H as <- <-; try reflexivity; discriminate.
+Qed.
+
+Lemma load_tail_fields tf ti pv flt file sel fmt attrs nev sc ld :
+  load_tail tf ti pv flt file sel fmt attrs nev sc = Ok ld ->
+  l_format ld = fmt /\ l_attrs ld = attrs /\ l_footers ld = snd sc.
+Proof.
+  unfold load_tail. intros H.
+  repeat match type of H with
+         | bind ?x _ = _ => destruct x; cbn [bind] in H; [|discriminate]
+         end.
+  injection H as <-. cbn. auto.
+Qed.
+
+Theorem source_load tf ti pv F path fmt0 opts0 ends0 nev0 cnt0 d sel first rest :
+  (forall t, ti (t ++ String nlc "") = ti t) ->
+  Forall line_ok (first :: rest) -> rest <> [] -> labels_ok ti (first :: rest) ->
+  (forall fa, oscar_format first = Ok fa -> (fst fa =? "Oscar2013Extended_IC") || (fst fa =? "Oscar2013Extended_Photons") = false) ->
+  keys_ok d = true -> assoc "events" d = sel_val sel -> sel_ok sel ->
+  gen_load ti (Particle_hand (mk_particle tf ti pv)) (akf_hand F)
+    (mkO (render_lines (first :: rest)) path fmt0 opts0 ends0 nev0 cnt0 (OList [])) (ODict d)
+  = match load tf ti pv (flt_of F d) (first :: rest) sel with
+    | Ok ld => Ok (mkO (render_lines (first :: rest)) path (OStr (l_format ld)) (ODict d) (enc_foots (l_footers ld))
+                       (OInt (l_nevents ld)) (OArr (inj_cnt (l_counts ld))) (enc_strs (l_attrs ld)),
+                   OTuple [enc_events (l_events ld); OInt (l_nevents ld); OArr (inj_cnt (l_counts ld)); enc_strs (l_attrs ld)])
+    | Err e => Err e
+    end.
+Proof.
+  intros Hnl Hok Hrest Hlab Hstd Hk Hs Hsel. set (ls := first :: rest) in *. set (text := render_lines ls).
+  unfold gen_load. cbv zeta.
+  cbn [py_setattr py_getattr attr_get o_text o_path o_fmt o_opts o_ends o_nev o_cnt o_attrs bind py_keys py_iter].
+  with_loop (fun b => fold_keys b d) G.
+  { intros k. unfold py_not_in. cbn [py_in existsM py_eq notM bind].
+    destruct (String.eqb "events" k); cbn [bind negb orb]; [reflexivity|]. destruct (String.eqb "filters" k); reflexivity. }
+  rewrite G, Hk. clear G. cbn [bind].
+  rewrite !in_keys, !getitem_dict, Hs.
+  set (self1 := mkO text path fmt0 (ODict d) (OList []) nev0 cnt0 (OList [])).
+  match goal with |- bind ?v _ = _ => assert (Hv : v = Ok self1) end.
+  { destruct sel as [|k|a b]; cbn [sel_val sel_ok bind andM py_isinstance py_lt py_cmp as_int] in *.
+    - reflexivity.
+    - replace (k <? 0)%Z with false by (symmetry; apply Z.ltb_ge; lia). reflexivity.
+    - unfold gen_check_that_tuple_contains_integers_only. cbn [py_iter bind forallM py_isinstance notM negb].
+      cbv iota beta. unfold self1. cbn [py_getattr attr_get o_opts bind]. rewrite !getitem_dict, Hs. cbn [bind].
+      change (py_getitem (OTuple [OInt a; OInt b]) (OInt 0)) with (Ok (OInt a)).
+      change (py_getitem (OTuple [OInt a; OInt b]) (OInt 1)) with (Ok (OInt b)).
+      cbn [bind py_gt py_lt py_cmp as_int orM].
+      replace (b <? a)%Z with false by (symmetry; apply Z.ltb_ge; lia).
+      replace (a <? 0)%Z with false by (symmetry; apply Z.ltb_ge; lia).
+      replace (b <? 0)%Z with false by (symmetry; apply Z.ltb_ge; lia). reflexivity. }
+  rewrite Hv. clear Hv. cbn [bind]. subst ls. rewrite load_eq. set (ls := first :: rest) in *.
+  assert (Hl1 : line_ok first) by (inversion Hok; assumption).
+  rewrite (source_set_oscar_format self1 first rest Hl1 eq_refl).
+  destruct (oscar_format first) as [[fmt attrs]|e] eqn:Ef; cbn [bind fst snd]; [|reflexivity].
+  pose proof (Hstd _ eq_refl) as Hstd'. cbn [fst] in Hstd'. rewrite Hstd'. cbn [bind]. cbv iota beta.
+  assert (Hfs : fmt_state self1 (fmt, attrs) = mkO text path (OStr fmt) (ODict d) (OList []) nev0 cnt0 (enc_strs attrs)).
+  { unfold fmt_state, self1. cbn [fst snd]. destruct (fmt =? "ASCII") eqn:Ea; [reflexivity|].
+    rewrite (oscar_format_attrs first fmt attrs Ef Ea). reflexivity. }
+  rewrite Hfs. clear Hfs.
+  assert (Hne : ls <> []) by discriminate.
+  assert (Hpre : removelast ls <> []) by (unfold ls; destruct rest; [congruence|discriminate]).
+  assert (Hlast : line_ok (last ls [])).
+  { rewrite Forall_forall in Hok. apply Hok. rewrite (app_removelast_last [] Hne) at 2. apply in_or_app. right. left. reflexivity. }
+  assert (Htext : text = render_lines (removelast ls ++ [last ls []])) by (unfold text; rewrite <- app_removelast_last by exact Hne; reflexivity).
+  rewrite Htext at 1.
+  rewrite (source_set_num_events ti path (OStr fmt) (ODict d) (OList []) nev0 cnt0 (enc_strs attrs) _ _ Hnl Hpre Hlast).
+  rewrite <- Htext.
+  destruct (num_events_of ti (last ls [])) as [nev|e]; cbn [bind]; [|reflexivity]. cbv iota beta.
+  apply orb_false_iff in Hstd'. destruct Hstd' as [H1 H2]. apply String.eqb_neq in H1, H2.
+  unfold text. rewrite (source_scan ti path fmt (ODict d) [] (OInt nev) cnt0 (enc_strs attrs) ls Hok H1 H2 Hlab).
+  destruct (scan ti ls) as [[rows foots]|e]; cbn [bind]; [|reflexivity]. cbv iota beta. cbn [app].
+  rewrite (source_set_particle_list tf ti pv F ls path fmt d _ nev rows foots attrs sel Hok Hs Hsel).
+  destruct (load_tail tf ti pv (flt_of F d) ls sel fmt attrs nev (rows, foots)) as [ld|e] eqn:El; cbn [bind]; [|reflexivity].
+  destruct (load_tail_fields _ _ _ _ _ _ _ _ _ _ _ El) as (Hf1 & Hf2 & Hf3). cbn [snd] in Hf3. rewrite Hf1, Hf2, Hf3.
+  cbv iota beta. unfold enc_strs. cbn [py_getattr attr_get o_nev o_cnt o_attrs bind]. reflexivity.
+Qed.
+
+(* ------------------------------------------------------------------ options that load() rejects *)
+Lemma forallM_isint l : forallM (fun event : ov => Ok (py_isinstance event T_int)) l = Ok (forallb is_pyint l).
+Proof. induction l as [|x l IH]; [reflexivity|]. cbn [forallM bind forallb]. unfold is_pyint at 1. destruct (py_isinstance x T_int); [exact IH|reflexivity]. Qed.
+
+Theorem source_load_rejects ti PART AKF self d e :
+  opts_verdict d = Some e -> gen_load ti PART AKF self (ODict d) = Err e.
+Proof.
+  intros Hv. unfold gen_load. cbv zeta. destruct self as [text path fmt0 opts0 ends0 nev0 cnt0 attrs0].
+  cbn [py_setattr py_getattr attr_get o_text o_path o_fmt o_opts o_ends o_nev o_cnt o_attrs bind py_keys py_iter].
+  with_loop (fun b => fold_keys b d) G.
+  { intros k. unfold py_not_in. cbn [py_in existsM py_eq notM bind].
+    destruct (String.eqb "events" k); cbn [bind negb orb]; [reflexivity|]. destruct (String.eqb "filters" k); reflexivity. }
+  rewrite G. clear G. unfold opts_verdict in Hv.
+  destruct (keys_ok d); cbn [negb bind] in *; [|congruence].
+  rewrite !in_keys, !getitem_dict.
+  destruct (assoc "events" d) as [[| |b0|k|z0|q0|s0|s1|l0|l|d0|a0|p0|f0|c0 p1|n0]|] eqn:Ea; try discriminate; cbn [bind andM py_isinstance].
+  - destruct (k <? 0)%Z eqn:Ek; [|discriminate]. injection Hv as <-. cbn [py_lt py_cmp as_int bind]. rewrite Ek. reflexivity.
+  - unfold gen_check_that_tuple_contains_integers_only. cbn [py_iter bind]. rewrite forallM_isint. cbn [notM bind].
+    destruct (forallb is_pyint l); cbn [negb bind] in *; [|injection Hv as <-; reflexivity].
+    destruct l as [|[| |b1|a|z1|q1|s2|s3|l1|l2|d1|a1|p2|f1|c1 p3|n1] [|[| |b2|b|z2|q2|s4|s5|l3|l4|d2|a2|p4|f2|c2 p5|n2] [|? ?]]]; try discriminate.
+    cbv iota beta. cbn [py_getattr attr_get o_opts bind]. rewrite !getitem_dict, Ea. cbn [bind].
+    change (py_getitem (OTuple [OInt a; OInt b]) (OInt 0)) with (Ok (OInt a)).
+    change (py_getitem (OTuple [OInt a; OInt b]) (OInt 1)) with (Ok (OInt b)).
+    cbn [bind py_gt py_lt py_cmp as_int orM].
+    destruct (b <? a)%Z; cbn [bind]; [injection Hv as <-; reflexivity|].
+    destruct (a <? 0)%Z; cbn [bind orb] in *; [injection Hv as <-; reflexivity|].
+    destruct (b <? 0)%Z; cbn [bind] in *; [injection Hv as <-; reflexivity|discriminate].
+Qed.
+
+(* ------------------------------------------------------------------ small methods *)
+Theorem source_check_tuple self l :
+  gen_check_that_tuple_contains_integers_only self (OTuple l)
+  = if forallb is_pyint l then Ok (self, ONone) else Err TypeError.
+Proof.
+  unfold gen_check_that_tuple_contains_integers_only. cbn [py_iter bind]. rewrite forallM_isint. cbn [notM bind].
+  destruct (forallb is_pyint l); reflexivity.
+Qed.
+
+Theorem source_accessors self :
+  gen_oscar_format self = (v <- py_getattr self A_fmt ;; Ok (self, v)) /\
+  gen_event_end_lines self = (v <- py_getattr self A_ends ;; Ok (self, v)).
+Proof. split; reflexivity. Qed.
+
+(* OscarLoader(path): the path must mention ".oscar" or ".dat"; format unset, no custom attributes *)
+Theorem source_init text p :
+  gen_init__ (new_object text) (OStr p)
+  = if contains ".oscar" p || contains ".dat" p
+    then Ok (mkO text (OStr p) ONone OUnbound OUnbound OUnbound OUnbound (OList []), ONone)
+    else Err OtherError.
+Proof.
+  unfold gen_init__. cbn [py_in notM andM bind].
+  destruct (contains ".oscar" p); cbn [negb bind orb]; [reflexivity|].
+  destruct (contains ".dat" p); reflexivity.
+Qed.
+
+(* a file of one line: the backward search for the last line runs off the start of the file (OSError) *)
+Lemma scan_ok_labels ti ls r : scan ti ls = Ok r -> labels_ok ti ls.
+Proof.
+  revert r. induction ls as [|l ls IH]; intros r H; [constructor|]. cbn [scan] in H.
+  destruct (kind_scan l) eqn:K.
+  - destruct (scan ti ls) as [r'|]; cbn in H; [|discriminate]. constructor; [congruence|eapply IH; reflexivity].
+  - destruct (nth_error l 2) as [e|] eqn:E2; [|discriminate]. destruct (nth_error l 4) as [c|]; [|discriminate].
+    destruct (ti e) eqn:Te; [|discriminate]. destruct (ti c); [|discriminate].
+    destruct (scan ti ls) as [r'|]; cbn in H; [|discriminate].
+    constructor; [|eapply IH; reflexivity]. intros _ e' He'. congruence.
+  - constructor; [congruence|eapply IH, H].
+Qed.
+
+(* whenever the hand model loads the file, so does the source, with the same result (no assumption on the labels) *)
+Theorem source_load_ok tf ti pv F path fmt0 opts0 ends0 nev0 cnt0 d sel first rest ld :
+  (forall t, ti (t ++ String nlc "") = ti t) ->
+  Forall line_ok (first :: rest) -> rest <> [] ->
+  keys_ok d = true -> assoc "events" d = sel_val sel -> sel_ok sel ->
+  load tf ti pv (flt_of F d) (first :: rest) sel = Ok ld ->
+  gen_load ti (Particle_hand (mk_particle tf ti pv)) (akf_hand F)
+    (mkO (render_lines (first :: rest)) path fmt0 opts0 ends0 nev0 cnt0 (OList [])) (ODict d)
+  = Ok (mkO (render_lines (first :: rest)) path (OStr (l_format ld)) (ODict d) (enc_foots (l_footers ld))
+            (OInt (l_nevents ld)) (OArr (inj_cnt (l_counts ld))) (enc_strs (l_attrs ld)),
+        OTuple [enc_events (l_events ld); OInt (l_nevents ld); OArr (inj_cnt (l_counts ld)); enc_strs (l_attrs ld)]).
+Proof.
+  intros Hnl Hok Hrest Hk Hs Hsel Hld.
+  assert (Hx : labels_ok ti (first :: rest) /\
+               (forall fa, oscar_format first = Ok fa ->
+                  (fst fa =? "Oscar2013Extended_IC") || (fst fa =? "Oscar2013Extended_Photons") = false)).
+  { pose proof Hld as H. rewrite load_eq in H.
+    destruct (oscar_format first) as [fa|]; cbn [bind] in H; [|discriminate].
+    destruct ((fst fa =? "Oscar2013Extended_IC") || (fst fa =? "Oscar2013Extended_Photons")) eqn:Estd; cbn [bind] in H; [discriminate|].
+    destruct (num_events_of ti _); cbn [bind] in H; [|discriminate].
+    destruct (scan ti (first :: rest)) as [sc|] eqn:Esc; cbn [bind] in H; [|discriminate].
+    split; [eapply scan_ok_labels, Esc|]. intros fa' E. injection E as <-. exact Estd. }
+  destruct Hx as [Hlab Hstd].
+  rewrite (source_load tf ti pv F path fmt0 opts0 ends0 nev0 cnt0 d sel first rest Hnl Hok Hrest Hlab Hstd Hk Hs Hsel), Hld.
+  reflexivity.
+Qed.
+
+
+(* a file of one line: the backward search runs off the start of the file (OSError) *)
+Lemma back_search_fails (L : string) (body : ov -> result (lres ov)) :
+  no_char nlc L = true ->
+  (forall p c r, drop (Z.to_nat p) (L ++ String nlc "") = String c r -> (0 <= p)%Z ->
+     body (OBin (L ++ String nlc "") p) = if Ascii.eqb c nlc then Ok (LBreak (OBin (L ++ String nlc "") (p + 1)))
+                          else (f <- py_seek (OBin (L ++ String nlc "") (p + 1)) (OInt (-2)) (OInt 1) ;; Ok (LNext f))) ->
+  forall j fuel, (j < String.length L)%nat -> (j < fuel)%nat ->
+  py_while fuel body (OBin (L ++ String nlc "") (Z.of_nat j)) = Err OtherError.
+Proof.
+  intros HL Hb. induction j as [|j IH]; intros fuel Hj Hf; (destruct fuel as [|fuel]; [lia|]); cbn [py_while].
+  - destruct (drop_head_no_nl L 0 (String nlc "") HL Hj) as (c & r & Hd & Hc).
+    rewrite (Hb _ c r); [|exact Hd|lia]. rewrite Hc. rewrite seek_cur_neg by lia. reflexivity.
+  - destruct (drop_head_no_nl L (S j) (String nlc "") HL Hj) as (c & r & Hd & Hc).
+    rewrite (Hb _ c r); [|rewrite Nat2Z.id; exact Hd|lia]. rewrite Hc. rewrite seek_cur by lia. cbn [bind].
+    replace (Z.of_nat (S j) + 1 + -2)%Z with (Z.of_nat j) by lia. apply IH; lia.
+Qed.
+
+Theorem source_set_num_events_one_line ti path fmt opts ends nev cnt attrs l :
+  line_ok l ->
+  gen_set_num_events ti (mkO (render_lines [l]) path fmt opts ends nev cnt attrs) = Err OtherError.
+Proof.
+  intros Hl. pose proof (line_ok_nl l Hl) as HL. cbn [render_lines]. set (L := join sp l) in *.
+  unfold gen_set_num_events. cbv zeta. unfold py_open. cbn [o_text]. rewrite seek_end.
+  rewrite length_append. cbn [String.length].
+  destruct (String.length L) as [|n] eqn:En.
+  - reflexivity.
+  - replace (Z.of_nat (S n + 1) + -2 <? 0)%Z with false by (symmetry; apply Z.ltb_ge; lia). cbn [bind].
+    replace (Z.of_nat (S n + 1) + -2)%Z with (Z.of_nat n) by lia.
+    match goal with |- context [py_while ?f ?b ?s] => pose proof (back_search_fails L b HL) as W; cbv beta in W end.
+    match type of W with (?P -> _) => assert (W1 : P); [clear W|specialize (W W1); clear W1] end.
+    { intros p c r Hd Hp. cbn [py_read]. rewrite Hd. cbn [bind]. cbv iota beta.
+      cbn [py_ne py_eq notM bind String.eqb]. destruct (Ascii.eqb c nlc); reflexivity. }
+    rewrite (W n); [reflexivity|lia|].
+    unfold py_fuel. cbn [fold_right fuel_of]. rewrite length_append. lia.
+Qed.
+
+(* ------------------------------------------------------------------ without the assumption on the labels *)
+Section ScanErr.
+  Variable ti : string -> option Q.
+
+  Lemma scan_fold_shape ls : forall evo E,
+    (exists e, fold_leftM (scan_step ti) ls (evo, E) = Err e) \/
+    (exists ent E', fold_leftM (scan_step ti) ls (evo, E) = Ok (evo ++ ent, E')%list).
+  Proof.
+    induction ls as [|l ls IH]; intros evo E.
+    - right. exists [], E. cbn. rewrite app_nil_r. reflexivity.
+    - cbn [fold_leftM]. destruct (scan_step ti (evo, E) l) as [[evo' E']|e] eqn:Es; cbn [bind]; [|left; eexists; reflexivity].
+      assert (Hevo : exists a, evo' = (evo ++ a)%list).
+      { unfold scan_step in Es. destruct (kind_scan l).
+        - injection Es as <- <-. exists []. rewrite app_nil_r. reflexivity.
+        - destruct (nth_error l 2); [|discriminate]. destruct (nth_error l 4); [|discriminate]. destruct (ti s0); [|discriminate].
+          injection Es as <- <-. eexists. reflexivity.
+        - injection Es as <- <-. exists []. rewrite app_nil_r. reflexivity. }
+      destruct Hevo as (a & ->). destruct (IH (evo ++ a)%list E') as [(e & He)|(ent & E'' & He)].
+      + left. exists e. exact He.
+      + right. exists (a ++ ent)%list, E''. rewrite He, app_assoc. reflexivity.
+  Qed.
+
+  Lemma mapM_app_err {A B} (f : A -> result B) a b e : mapM f b = Err e -> exists e', mapM f (a ++ b) = Err e'.
+  Proof.
+    intros H. induction a as [|x a IH]; [exists e; exact H|]. cbn [app mapM]. destruct (f x); cbn [bind]; [|eexists; reflexivity].
+    destruct IH as (e' & ->). eexists. reflexivity.
+  Qed.
+
+  Lemma scan_fold_err ls : forall evo E e, scan ti ls = Err e ->
+    (exists e', fold_leftM (scan_step ti) ls (evo, E) = Err e') \/
+    (exists ent E', fold_leftM (scan_step ti) ls (evo, E) = Ok (evo ++ ent, E')%list /\ exists e', mapM (row_int ti) ent = Err e').
+  Proof.
+    induction ls as [|l ls IH]; intros evo E e H; [discriminate|]. cbn [scan] in H. cbn [fold_leftM scan_step].
+    destruct (kind_scan l) eqn:K.
+    - cbn [bind]. destruct (scan ti ls) as [r|e0] eqn:Es; cbn [bind] in H; [discriminate|]. eapply IH. reflexivity.
+    - destruct (nth_error l 2) as [lab|]; [|left; eexists; reflexivity].
+      destruct (nth_error l 4) as [c|]; [|left; eexists; reflexivity].
+      destruct (ti c) as [cn|] eqn:Tc; [|left; eexists; reflexivity]. cbn [bind].
+      destruct (ti lab) as [ev|] eqn:Tl.
+      + destruct (scan ti ls) as [r|e0] eqn:Es; cbn [bind] in H; [discriminate|].
+        destruct (IH (evo ++ [OList [OStr lab; OInt (to_Z cn)]])%list E e0 eq_refl) as [Hl|(ent & E' & Hf & e' & Hm)]; [left; exact Hl|].
+        right. exists (OList [OStr lab; OInt (to_Z cn)] :: ent), E'. rewrite Hf, <- app_assoc. split; [reflexivity|].
+        cbn [mapM row_int cell_int bind]. rewrite Tl, Hm. eexists. reflexivity.
+      + destruct (scan_fold_shape ls (evo ++ [OList [OStr lab; OInt (to_Z cn)]])%list E) as [Hl|(ent & E' & Hf)]; [left; exact Hl|].
+        right. exists (OList [OStr lab; OInt (to_Z cn)] :: ent), E'. rewrite Hf, <- app_assoc. split; [reflexivity|].
+        cbn [mapM row_int cell_int bind]. rewrite Tl. eexists. reflexivity.
+    - cbn [bind]. eapply IH, H.
+  Qed.
+End ScanErr.
+
+Theorem source_scan_err ti path fmt opts E nev cnt attrs ls e :
+  Forall line_ok ls -> fmt <> "Oscar2013Extended_IC" -> fmt <> "Oscar2013Extended_Photons" -> scan ti ls = Err e ->
+  exists e', gen_set_num_output_per_event_and_event_footers ti (mkO (render_lines ls) path (OStr fmt) opts (OList E) nev cnt attrs)
+             = Err e'.
+Proof.
+  intros Hok H1 H2 H. rewrite (scan_loop ti path fmt opts E nev cnt attrs ls Hok H1 H2).
+  destruct (scan_fold_err ti ls [] E e H) as [(e' & ->)|(ent & E' & -> & e' & Hm)]; [eexists; reflexivity|].
+  cbn [app]. destruct ent as [|x ent]; [discriminate|]. cbn [py_np_array_int32_2d]. rewrite Hm. eexists. reflexivity.
+Qed.
+
+Definition is_err {A} (r : result A) : Prop := match r with Err _ => True | Ok _ => False end.
+Lemma is_err_exists {A} (r : result A) : is_err r -> exists e, r = Err e.
+Proof. destruct r; [contradiction|]. intros _. eexists. reflexivity. Qed.
+
+(* a file the hand model refuses is refused by the source (possibly with another class when a label is not a numeral) *)
+Theorem source_load_err tf ti pv F path fmt0 opts0 ends0 nev0 cnt0 d sel first rest e :
+  (forall t, ti (t ++ String nlc "") = ti t) ->
+  Forall line_ok (first :: rest) -> rest <> [] ->
+  (forall fa, oscar_format first = Ok fa -> (fst fa =? "Oscar2013Extended_IC") || (fst fa =? "Oscar2013Extended_Photons") = false) ->
+  keys_ok d = true -> assoc "events" d = sel_val sel -> sel_ok sel ->
+  load tf ti pv (flt_of F d) (first :: rest) sel = Err e ->
+  exists e', gen_load ti (Particle_hand (mk_particle tf ti pv)) (akf_hand F)
+               (mkO (render_lines (first :: rest)) path fmt0 opts0 ends0 nev0 cnt0 (OList [])) (ODict d) = Err e'.
+Proof.
+  intros Hnl Hok Hrest Hstd Hk Hs Hsel Hld. apply is_err_exists.
+  destruct (scan ti (first :: rest)) as [sc|es] eqn:Esc.
+  { rewrite (source_load tf ti pv F path fmt0 opts0 ends0 nev0 cnt0 d sel first rest Hnl Hok Hrest
+               (scan_ok_labels ti _ _ Esc) Hstd Hk Hs Hsel), Hld. exact I. }
+  set (ls := first :: rest) in *. set (text := render_lines ls).
+  unfold gen_load. cbv zeta.
+  cbn [py_setattr py_getattr attr_get o_text o_path o_fmt o_opts o_ends o_nev o_cnt o_attrs bind py_keys py_iter].
+  with_loop (fun b => fold_keys b d) G.
+  { intros k. unfold py_not_in. cbn [py_in existsM py_eq notM bind].
+    destruct (String.eqb "events" k); cbn [bind negb orb]; [reflexivity|]. destruct (String.eqb "filters" k); reflexivity. }
+  rewrite G, Hk. clear G. cbn [bind].
+  rewrite !in_keys, !getitem_dict, Hs.
+  set (self1 := mkO text path fmt0 (ODict d) (OList []) nev0 cnt0 (OList [])).
+  match goal with |- is_err (bind ?v _) => assert (Hv : v = Ok self1) end.
+  { destruct sel as [|k|a b]; cbn [sel_val sel_ok bind andM py_isinstance py_lt py_cmp as_int] in *.
+    - reflexivity.
+    - replace (k <? 0)%Z with false by (symmetry; apply Z.ltb_ge; lia). reflexivity.
+    - unfold gen_check_that_tuple_contains_integers_only. cbn [py_iter bind forallM py_isinstance notM negb].
+      cbv iota beta. unfold self1. cbn [py_getattr attr_get o_opts bind]. rewrite !getitem_dict, Hs. cbn [bind].
+      change (py_getitem (OTuple [OInt a; OInt b]) (OInt 0)) with (Ok (OInt a)).
+      change (py_getitem (OTuple [OInt a; OInt b]) (OInt 1)) with (Ok (OInt b)).
+      cbn [bind py_gt py_lt py_cmp as_int orM].
+      replace (b <? a)%Z with false by (symmetry; apply Z.ltb_ge; lia).
+      replace (a <? 0)%Z with false by (symmetry; apply Z.ltb_ge; lia).
+      replace (b <? 0)%Z with false by (symmetry; apply Z.ltb_ge; lia). reflexivity. }
+  rewrite Hv. clear Hv. cbn [bind].
+  assert (Hl1 : line_ok first) by (inversion Hok; assumption).
+  rewrite (source_set_oscar_format self1 first rest Hl1 eq_refl).
+  destruct (oscar_format first) as [[fmt attrs]|e0] eqn:Ef; cbn [bind fst snd]; [|exact I].
+  pose proof (Hstd _ eq_refl) as Hstd'. cbn [fst] in Hstd'. cbv iota beta.
+  assert (Hfs : fmt_state self1 (fmt, attrs) = mkO text path (OStr fmt) (ODict d) (OList []) nev0 cnt0 (enc_strs attrs)).
+  { unfold fmt_state, self1. cbn [fst snd]. destruct (fmt =? "ASCII") eqn:Ea; [reflexivity|].
+    rewrite (oscar_format_attrs first fmt attrs Ef Ea). reflexivity. }
+  rewrite Hfs. clear Hfs.
+  assert (Hne : ls <> []) by discriminate.
+  assert (Hpre : removelast ls <> []) by (unfold ls; destruct rest; [congruence|discriminate]).
+  assert (Hlast : line_ok (last ls [])).
+  { rewrite Forall_forall in Hok. apply Hok. rewrite (app_removelast_last [] Hne) at 2. apply in_or_app. right. left. reflexivity. }
+  assert (Htext : text = render_lines (removelast ls ++ [last ls []])) by (unfold text; rewrite <- app_removelast_last by exact Hne; reflexivity).
+  rewrite Htext at 1.
+  rewrite (source_set_num_events ti path (OStr fmt) (ODict d) (OList []) nev0 cnt0 (enc_strs attrs) _ _ Hnl Hpre Hlast).
+  rewrite <- Htext.
+  destruct (num_events_of ti (last ls [])) as [nev|e0]; cbn [bind]; [|exact I]. cbv iota beta.
+  apply orb_false_iff in Hstd'. destruct Hstd' as [H1 H2]. apply String.eqb_neq in H1, H2.
+  unfold text. destruct (source_scan_err ti path fmt (ODict d) [] (OInt nev) cnt0 (enc_strs attrs) ls es Hok H1 H2 Esc) as (e' & ->).
+  exact I.
+Qed.
+
+(* a run of the translated methods on a small file: decimal numerals, trailing newline ignored by int()/float() *)
+Definition ex_num (s : string) : option Q :=
+  let t := replace_char nlc "" s in
+  if digits t && negb (t =? "") then Some (inject_Z (Z.of_nat (dval t))) else None.
+Definition ex_lines : list line :=
+  [["#!OSCAR2013"; "particle_lists"; "t"; "x"; "y"; "z"; "mass"; "p0"; "px"; "py"; "pz"; "pdg"; "ID"; "charge"];
+   ["#"; "Units:"; "fm"]; ["#"; "SMASH"];
+   ["#"; "event"; "0"; "out"; "2"];
+   ["0"; "0"; "0"; "0"; "1"; "2"; "0"; "0"; "1"; "211"; "0"; "1"];
+   ["0"; "1"; "0"; "0"; "1"; "2"; "0"; "0"; "1"; "22"; "1"; "0"];
+   ["#"; "event"; "0"; "end"; "0"; "impact"; ""; ""; "3"; "scattering_projectile_target"; "yes"];
+   ["#"; "event"; "1"; "out"; "1"];
+   ["0"; "0"; "0"; "0"; "1"; "2"; "0"; "0"; "1"; "2212"; "0"; "1"];
+   ["#"; "event"; "1"; "end"; "0"; "impact"; ""; ""; "4"; "scattering_projectile_target"; "no"]].
+Definition ex_self := mkO (render_lines ex_lines) (OStr "f.oscar") ONone OUnbound OUnbound OUnbound OUnbound (OList []).
+Definition ex_F (fv : ov) (ps : list particle) : list particle :=
+  filter (fun p => match get_slot 12 p with Some q => negb (Qeq_bool q 0) | None => false end) ps.
+Definition ex_load d := gen_load ex_num (Particle_hand (mk_particle ex_num ex_num (fun _ => true))) (akf_hand ex_F) ex_self (ODict d).
+Definition ex_hand flt sel := load ex_num ex_num (fun _ => true) flt ex_lines sel.
+
+Theorem source_example :
+  (exists ld, ex_hand None SelAll = Ok ld) /\
+  ex_load [] = match ex_hand None SelAll with
+               | Ok ld => Ok (mkO (render_lines ex_lines) (OStr "f.oscar") (OStr (l_format ld)) (ODict []) (enc_foots (l_footers ld))
+                                  (OInt (l_nevents ld)) (OArr (inj_cnt (l_counts ld))) (enc_strs (l_attrs ld)),
+                              OTuple [enc_events (l_events ld); OInt (l_nevents ld); OArr (inj_cnt (l_counts ld)); enc_strs (l_attrs ld)])
+               | Err e => Err e end /\
+  (match ex_load [("events", OInt 1); ("filters", OOpaque 0)] with
+   | Ok (s, OTuple [OList [OList [OPart p]]; n; c; a]) => (n, c, get_slot 9 p) = (OInt 1, OArr (A2 [(1, 1)%Z]), Some (2212 # 1)%Q)
+   | _ => False end) /\
+  (match ex_load [("filters", OOpaque 0)] with Ok (s, _) => o_cnt s = OArr (A2 [(0, 1); (1, 1)]%Z) | _ => False end) /\
+  (match ex_load [] with Ok (s, _) => exists s', gen_impact_parameter ex_num s = Ok (s', OList [OFloat 3; OFloat 4]) | _ => False end) /\
+  ex_load [("event", OInt 0)] = Err ValueError /\
+  ex_load [("events", OTuple [OInt 1; OInt 0])] = Err ValueError /\
+  ex_load [("events", OInt 2)] = Err IndexError.
+Proof.
+  split; [eexists; vm_compute; reflexivity|].
+  split; [vm_compute; reflexivity|].
+  split; [vm_compute; reflexivity|].
+  split; [vm_compute; reflexivity|].
+  split; [vm_compute; eexists; reflexivity|].
+  split; [vm_compute; reflexivity|].
+  split; vm_compute; reflexivity.
 Qed.
